@@ -160,6 +160,83 @@ fn bound_tf_tf_case(sub: bool, form: Form) {
     vcover!(x.lo != 0.0 && y.lo != 0.0 && r.lo != 0.0, "non-trivial operands reachable");
 }
 
+// ---- (c) mechanised for Algorithm 4: the 2u^2 bound per exponent gap, with ghost values.
+// The leaf stubs record their results; with delta := sl +- xl - v (the rounding error of the one
+// inexact addition, computed exactly in a 256-bit window anchored at the smallest term; far case:
+// the addition returned one operand unchanged, so delta is the other) the exactness contracts give
+// result - exact = -delta, and the obligation is |delta| * 2^105 <= |zh + zl + delta|.
+use core::sync::atomic::{AtomicU64, Ordering::Relaxed};
+static G_SL: AtomicU64 = AtomicU64::new(0);
+static G_SH: AtomicU64 = AtomicU64::new(0);
+static G_FA: AtomicU64 = AtomicU64::new(0);
+static G_FB: AtomicU64 = AtomicU64::new(0);
+#[cfg(kani)]
+pub fn g_new_add(a: f64, b: f64) -> TwoFloat {
+    let r = s_new_add(a, b);
+    G_SH.store(r.hi.to_bits(), Relaxed); G_SL.store(r.lo.to_bits(), Relaxed);
+    r
+}
+#[cfg(kani)]
+pub fn g_new_sub(a: f64, b: f64) -> TwoFloat {
+    let r = s_new_sub(a, b);
+    G_SH.store(r.hi.to_bits(), Relaxed); G_SL.store(r.lo.to_bits(), Relaxed);
+    r
+}
+#[cfg(kani)]
+pub fn g_fts(a: f64, b: f64) -> TwoFloat {
+    let r = s_fts(a, b);
+    G_FA.store(a.to_bits(), Relaxed); G_FB.store(b.to_bits(), Relaxed);
+    r
+}
+fn min3(a: i32, b: i32, c: i32) -> i32 { let m = if a < b { a } else { b }; if m < c { m } else { c } }
+
+/// kind 0: x + y, 1: x - y, 2: y - x;  sel: exponent-field gap of (x.hi, y), +-1000 for the far cases
+fn acc4_case(kind: u8, sel: i32) {
+    let x = any_valid(); let y = any_f64!();
+    vassume!(in1000(x.hi) && in1000(y));
+    let g = eexp(x.hi) - eexp(y);
+    if sel == 1000 { vassume!(g > 60) } else if sel == -1000 { vassume!(g < -60) } else { vassume!(g == sel) }
+    let r = match kind { 0 => x + y, 1 => x - y, _ => y - x };
+    vassert!(valid(r.hi, r.lo), "result is a valid TwoFloat");
+    #[cfg(kani)]
+    {
+        let xl = if kind == 2 { -x.lo } else { x.lo };
+        let sl = f64::from_bits(G_SL.load(Relaxed)); let sh = f64::from_bits(G_SH.load(Relaxed));
+        let fa = f64::from_bits(G_FA.load(Relaxed)); let v = f64::from_bits(G_FB.load(Relaxed));
+        vassert!(fa == sh, "structure: the final fast_two_sum is applied to (sh, v)");
+        let a0 = min3(efld_nz(sl), efld_nz(xl), efld_nz(v));
+        if a0 != i32::MAX {
+            let mut okstruct = true;
+            let (delta, anchor) = match (W::at(sl, a0, 190), W::at(xl, a0, 190), W::at(v, a0, 190)) {
+                (Some(a), Some(b), Some(c)) => (a.add(b).sub(c), a0),
+                _ => {
+                    if v == sl { (W::at(xl, efld_nz(xl), 0).unwrap_or(W::zero()), efld_nz(xl)) }
+                    else if v == xl { (W::at(sl, efld_nz(sl), 0).unwrap_or(W::zero()), efld_nz(sl)) }
+                    else { okstruct = false; (W::zero(), 1) }
+                }
+            };
+            vassert!(okstruct, "window: the three terms of delta fit, or the addition returned an operand unchanged");
+            let dmag = delta.abs();
+            let ok = if dmag.0[1] >> 16 != 0 || dmag.0[2] != 0 || dmag.0[3] != 0 { false }
+                else if dmag.0[0] == 0 && dmag.0[1] == 0 { true }
+                else {
+                    match (W::at(r.hi, anchor, 190), W::at(r.lo, anchor, 190)) {
+                        (Some(zh), Some(zl)) => dmag.shl(105).le(zh.add(zl).add(delta).abs()),
+                        (None, _) => eexp(r.hi) - anchor > 190,
+                        (Some(_), None) => false,
+                    }
+                };
+            vassert!(ok, "|delta| * 2^105 <= |result + delta|  (relative error <= 2 * 2^-106)");
+        }
+    }
+    #[cfg(not(kani))]
+    {
+        let (a, b, sub) = match kind { 0 => (val(&x), fx(y), false), 1 => (val(&x), fx(y), true), _ => (fx(y), val(&x), true) };
+        vassert!(bound_ok(&r, a, b, sub, 2, 106), "TwoFloat +- f64 within 2 * 2^-106 of the exact sum");
+    }
+    vcover!(x.lo != 0.0 && r.lo != 0.0, "non-trivial operands reachable");
+}
+
 /// an exactly-zero sum yields zero.  For valid operands the exact sum is zero iff the
 /// second operand is the word-wise negation of the first (normalised representations are
 /// unique: hi = RN(value)); natively the premise is the definitional one.
@@ -203,6 +280,377 @@ harnesses! {
     #[kani::solver(kissat)] #[kani::unwind(70)] fn bound_sub_tf_tf() { bound_tf_tf_case(true, Form::Op) }
     #[kani::solver(kissat)] #[kani::unwind(70)] fn bound_add_assign_tf() { bound_tf_tf_case(false, Form::Assign) }
     #[kani::solver(kissat)] #[kani::unwind(70)] fn bound_sub_assign_tf() { bound_tf_tf_case(true, Form::Assign) }
+
+    // ---- generated: 2u^2 bound of Algorithm 4 per exponent gap (thorough tier, seed-rotated)
+    #[kani::solver(kissat)] #[kani::unwind(6)] #[kani::stub(crate::arithmetic::fast_two_sum, g_fts)] #[kani::stub(TwoFloat::new_add, g_new_add)] #[kani::stub(TwoFloat::new_sub, g_new_sub)] fn acc4_add_gap_m60() { acc4_case(0, -60) }
+    #[kani::solver(kissat)] #[kani::unwind(6)] #[kani::stub(crate::arithmetic::fast_two_sum, g_fts)] #[kani::stub(TwoFloat::new_add, g_new_add)] #[kani::stub(TwoFloat::new_sub, g_new_sub)] fn acc4_add_gap_m59() { acc4_case(0, -59) }
+    #[kani::solver(kissat)] #[kani::unwind(6)] #[kani::stub(crate::arithmetic::fast_two_sum, g_fts)] #[kani::stub(TwoFloat::new_add, g_new_add)] #[kani::stub(TwoFloat::new_sub, g_new_sub)] fn acc4_add_gap_m58() { acc4_case(0, -58) }
+    #[kani::solver(kissat)] #[kani::unwind(6)] #[kani::stub(crate::arithmetic::fast_two_sum, g_fts)] #[kani::stub(TwoFloat::new_add, g_new_add)] #[kani::stub(TwoFloat::new_sub, g_new_sub)] fn acc4_add_gap_m57() { acc4_case(0, -57) }
+    #[kani::solver(kissat)] #[kani::unwind(6)] #[kani::stub(crate::arithmetic::fast_two_sum, g_fts)] #[kani::stub(TwoFloat::new_add, g_new_add)] #[kani::stub(TwoFloat::new_sub, g_new_sub)] fn acc4_add_gap_m56() { acc4_case(0, -56) }
+    #[kani::solver(kissat)] #[kani::unwind(6)] #[kani::stub(crate::arithmetic::fast_two_sum, g_fts)] #[kani::stub(TwoFloat::new_add, g_new_add)] #[kani::stub(TwoFloat::new_sub, g_new_sub)] fn acc4_add_gap_m55() { acc4_case(0, -55) }
+    #[kani::solver(kissat)] #[kani::unwind(6)] #[kani::stub(crate::arithmetic::fast_two_sum, g_fts)] #[kani::stub(TwoFloat::new_add, g_new_add)] #[kani::stub(TwoFloat::new_sub, g_new_sub)] fn acc4_add_gap_m54() { acc4_case(0, -54) }
+    #[kani::solver(kissat)] #[kani::unwind(6)] #[kani::stub(crate::arithmetic::fast_two_sum, g_fts)] #[kani::stub(TwoFloat::new_add, g_new_add)] #[kani::stub(TwoFloat::new_sub, g_new_sub)] fn acc4_add_gap_m53() { acc4_case(0, -53) }
+    #[kani::solver(kissat)] #[kani::unwind(6)] #[kani::stub(crate::arithmetic::fast_two_sum, g_fts)] #[kani::stub(TwoFloat::new_add, g_new_add)] #[kani::stub(TwoFloat::new_sub, g_new_sub)] fn acc4_add_gap_m52() { acc4_case(0, -52) }
+    #[kani::solver(kissat)] #[kani::unwind(6)] #[kani::stub(crate::arithmetic::fast_two_sum, g_fts)] #[kani::stub(TwoFloat::new_add, g_new_add)] #[kani::stub(TwoFloat::new_sub, g_new_sub)] fn acc4_add_gap_m51() { acc4_case(0, -51) }
+    #[kani::solver(kissat)] #[kani::unwind(6)] #[kani::stub(crate::arithmetic::fast_two_sum, g_fts)] #[kani::stub(TwoFloat::new_add, g_new_add)] #[kani::stub(TwoFloat::new_sub, g_new_sub)] fn acc4_add_gap_m50() { acc4_case(0, -50) }
+    #[kani::solver(kissat)] #[kani::unwind(6)] #[kani::stub(crate::arithmetic::fast_two_sum, g_fts)] #[kani::stub(TwoFloat::new_add, g_new_add)] #[kani::stub(TwoFloat::new_sub, g_new_sub)] fn acc4_add_gap_m49() { acc4_case(0, -49) }
+    #[kani::solver(kissat)] #[kani::unwind(6)] #[kani::stub(crate::arithmetic::fast_two_sum, g_fts)] #[kani::stub(TwoFloat::new_add, g_new_add)] #[kani::stub(TwoFloat::new_sub, g_new_sub)] fn acc4_add_gap_m48() { acc4_case(0, -48) }
+    #[kani::solver(kissat)] #[kani::unwind(6)] #[kani::stub(crate::arithmetic::fast_two_sum, g_fts)] #[kani::stub(TwoFloat::new_add, g_new_add)] #[kani::stub(TwoFloat::new_sub, g_new_sub)] fn acc4_add_gap_m47() { acc4_case(0, -47) }
+    #[kani::solver(kissat)] #[kani::unwind(6)] #[kani::stub(crate::arithmetic::fast_two_sum, g_fts)] #[kani::stub(TwoFloat::new_add, g_new_add)] #[kani::stub(TwoFloat::new_sub, g_new_sub)] fn acc4_add_gap_m46() { acc4_case(0, -46) }
+    #[kani::solver(kissat)] #[kani::unwind(6)] #[kani::stub(crate::arithmetic::fast_two_sum, g_fts)] #[kani::stub(TwoFloat::new_add, g_new_add)] #[kani::stub(TwoFloat::new_sub, g_new_sub)] fn acc4_add_gap_m45() { acc4_case(0, -45) }
+    #[kani::solver(kissat)] #[kani::unwind(6)] #[kani::stub(crate::arithmetic::fast_two_sum, g_fts)] #[kani::stub(TwoFloat::new_add, g_new_add)] #[kani::stub(TwoFloat::new_sub, g_new_sub)] fn acc4_add_gap_m44() { acc4_case(0, -44) }
+    #[kani::solver(kissat)] #[kani::unwind(6)] #[kani::stub(crate::arithmetic::fast_two_sum, g_fts)] #[kani::stub(TwoFloat::new_add, g_new_add)] #[kani::stub(TwoFloat::new_sub, g_new_sub)] fn acc4_add_gap_m43() { acc4_case(0, -43) }
+    #[kani::solver(kissat)] #[kani::unwind(6)] #[kani::stub(crate::arithmetic::fast_two_sum, g_fts)] #[kani::stub(TwoFloat::new_add, g_new_add)] #[kani::stub(TwoFloat::new_sub, g_new_sub)] fn acc4_add_gap_m42() { acc4_case(0, -42) }
+    #[kani::solver(kissat)] #[kani::unwind(6)] #[kani::stub(crate::arithmetic::fast_two_sum, g_fts)] #[kani::stub(TwoFloat::new_add, g_new_add)] #[kani::stub(TwoFloat::new_sub, g_new_sub)] fn acc4_add_gap_m41() { acc4_case(0, -41) }
+    #[kani::solver(kissat)] #[kani::unwind(6)] #[kani::stub(crate::arithmetic::fast_two_sum, g_fts)] #[kani::stub(TwoFloat::new_add, g_new_add)] #[kani::stub(TwoFloat::new_sub, g_new_sub)] fn acc4_add_gap_m40() { acc4_case(0, -40) }
+    #[kani::solver(kissat)] #[kani::unwind(6)] #[kani::stub(crate::arithmetic::fast_two_sum, g_fts)] #[kani::stub(TwoFloat::new_add, g_new_add)] #[kani::stub(TwoFloat::new_sub, g_new_sub)] fn acc4_add_gap_m39() { acc4_case(0, -39) }
+    #[kani::solver(kissat)] #[kani::unwind(6)] #[kani::stub(crate::arithmetic::fast_two_sum, g_fts)] #[kani::stub(TwoFloat::new_add, g_new_add)] #[kani::stub(TwoFloat::new_sub, g_new_sub)] fn acc4_add_gap_m38() { acc4_case(0, -38) }
+    #[kani::solver(kissat)] #[kani::unwind(6)] #[kani::stub(crate::arithmetic::fast_two_sum, g_fts)] #[kani::stub(TwoFloat::new_add, g_new_add)] #[kani::stub(TwoFloat::new_sub, g_new_sub)] fn acc4_add_gap_m37() { acc4_case(0, -37) }
+    #[kani::solver(kissat)] #[kani::unwind(6)] #[kani::stub(crate::arithmetic::fast_two_sum, g_fts)] #[kani::stub(TwoFloat::new_add, g_new_add)] #[kani::stub(TwoFloat::new_sub, g_new_sub)] fn acc4_add_gap_m36() { acc4_case(0, -36) }
+    #[kani::solver(kissat)] #[kani::unwind(6)] #[kani::stub(crate::arithmetic::fast_two_sum, g_fts)] #[kani::stub(TwoFloat::new_add, g_new_add)] #[kani::stub(TwoFloat::new_sub, g_new_sub)] fn acc4_add_gap_m35() { acc4_case(0, -35) }
+    #[kani::solver(kissat)] #[kani::unwind(6)] #[kani::stub(crate::arithmetic::fast_two_sum, g_fts)] #[kani::stub(TwoFloat::new_add, g_new_add)] #[kani::stub(TwoFloat::new_sub, g_new_sub)] fn acc4_add_gap_m34() { acc4_case(0, -34) }
+    #[kani::solver(kissat)] #[kani::unwind(6)] #[kani::stub(crate::arithmetic::fast_two_sum, g_fts)] #[kani::stub(TwoFloat::new_add, g_new_add)] #[kani::stub(TwoFloat::new_sub, g_new_sub)] fn acc4_add_gap_m33() { acc4_case(0, -33) }
+    #[kani::solver(kissat)] #[kani::unwind(6)] #[kani::stub(crate::arithmetic::fast_two_sum, g_fts)] #[kani::stub(TwoFloat::new_add, g_new_add)] #[kani::stub(TwoFloat::new_sub, g_new_sub)] fn acc4_add_gap_m32() { acc4_case(0, -32) }
+    #[kani::solver(kissat)] #[kani::unwind(6)] #[kani::stub(crate::arithmetic::fast_two_sum, g_fts)] #[kani::stub(TwoFloat::new_add, g_new_add)] #[kani::stub(TwoFloat::new_sub, g_new_sub)] fn acc4_add_gap_m31() { acc4_case(0, -31) }
+    #[kani::solver(kissat)] #[kani::unwind(6)] #[kani::stub(crate::arithmetic::fast_two_sum, g_fts)] #[kani::stub(TwoFloat::new_add, g_new_add)] #[kani::stub(TwoFloat::new_sub, g_new_sub)] fn acc4_add_gap_m30() { acc4_case(0, -30) }
+    #[kani::solver(kissat)] #[kani::unwind(6)] #[kani::stub(crate::arithmetic::fast_two_sum, g_fts)] #[kani::stub(TwoFloat::new_add, g_new_add)] #[kani::stub(TwoFloat::new_sub, g_new_sub)] fn acc4_add_gap_m29() { acc4_case(0, -29) }
+    #[kani::solver(kissat)] #[kani::unwind(6)] #[kani::stub(crate::arithmetic::fast_two_sum, g_fts)] #[kani::stub(TwoFloat::new_add, g_new_add)] #[kani::stub(TwoFloat::new_sub, g_new_sub)] fn acc4_add_gap_m28() { acc4_case(0, -28) }
+    #[kani::solver(kissat)] #[kani::unwind(6)] #[kani::stub(crate::arithmetic::fast_two_sum, g_fts)] #[kani::stub(TwoFloat::new_add, g_new_add)] #[kani::stub(TwoFloat::new_sub, g_new_sub)] fn acc4_add_gap_m27() { acc4_case(0, -27) }
+    #[kani::solver(kissat)] #[kani::unwind(6)] #[kani::stub(crate::arithmetic::fast_two_sum, g_fts)] #[kani::stub(TwoFloat::new_add, g_new_add)] #[kani::stub(TwoFloat::new_sub, g_new_sub)] fn acc4_add_gap_m26() { acc4_case(0, -26) }
+    #[kani::solver(kissat)] #[kani::unwind(6)] #[kani::stub(crate::arithmetic::fast_two_sum, g_fts)] #[kani::stub(TwoFloat::new_add, g_new_add)] #[kani::stub(TwoFloat::new_sub, g_new_sub)] fn acc4_add_gap_m25() { acc4_case(0, -25) }
+    #[kani::solver(kissat)] #[kani::unwind(6)] #[kani::stub(crate::arithmetic::fast_two_sum, g_fts)] #[kani::stub(TwoFloat::new_add, g_new_add)] #[kani::stub(TwoFloat::new_sub, g_new_sub)] fn acc4_add_gap_m24() { acc4_case(0, -24) }
+    #[kani::solver(kissat)] #[kani::unwind(6)] #[kani::stub(crate::arithmetic::fast_two_sum, g_fts)] #[kani::stub(TwoFloat::new_add, g_new_add)] #[kani::stub(TwoFloat::new_sub, g_new_sub)] fn acc4_add_gap_m23() { acc4_case(0, -23) }
+    #[kani::solver(kissat)] #[kani::unwind(6)] #[kani::stub(crate::arithmetic::fast_two_sum, g_fts)] #[kani::stub(TwoFloat::new_add, g_new_add)] #[kani::stub(TwoFloat::new_sub, g_new_sub)] fn acc4_add_gap_m22() { acc4_case(0, -22) }
+    #[kani::solver(kissat)] #[kani::unwind(6)] #[kani::stub(crate::arithmetic::fast_two_sum, g_fts)] #[kani::stub(TwoFloat::new_add, g_new_add)] #[kani::stub(TwoFloat::new_sub, g_new_sub)] fn acc4_add_gap_m21() { acc4_case(0, -21) }
+    #[kani::solver(kissat)] #[kani::unwind(6)] #[kani::stub(crate::arithmetic::fast_two_sum, g_fts)] #[kani::stub(TwoFloat::new_add, g_new_add)] #[kani::stub(TwoFloat::new_sub, g_new_sub)] fn acc4_add_gap_m20() { acc4_case(0, -20) }
+    #[kani::solver(kissat)] #[kani::unwind(6)] #[kani::stub(crate::arithmetic::fast_two_sum, g_fts)] #[kani::stub(TwoFloat::new_add, g_new_add)] #[kani::stub(TwoFloat::new_sub, g_new_sub)] fn acc4_add_gap_m19() { acc4_case(0, -19) }
+    #[kani::solver(kissat)] #[kani::unwind(6)] #[kani::stub(crate::arithmetic::fast_two_sum, g_fts)] #[kani::stub(TwoFloat::new_add, g_new_add)] #[kani::stub(TwoFloat::new_sub, g_new_sub)] fn acc4_add_gap_m18() { acc4_case(0, -18) }
+    #[kani::solver(kissat)] #[kani::unwind(6)] #[kani::stub(crate::arithmetic::fast_two_sum, g_fts)] #[kani::stub(TwoFloat::new_add, g_new_add)] #[kani::stub(TwoFloat::new_sub, g_new_sub)] fn acc4_add_gap_m17() { acc4_case(0, -17) }
+    #[kani::solver(kissat)] #[kani::unwind(6)] #[kani::stub(crate::arithmetic::fast_two_sum, g_fts)] #[kani::stub(TwoFloat::new_add, g_new_add)] #[kani::stub(TwoFloat::new_sub, g_new_sub)] fn acc4_add_gap_m16() { acc4_case(0, -16) }
+    #[kani::solver(kissat)] #[kani::unwind(6)] #[kani::stub(crate::arithmetic::fast_two_sum, g_fts)] #[kani::stub(TwoFloat::new_add, g_new_add)] #[kani::stub(TwoFloat::new_sub, g_new_sub)] fn acc4_add_gap_m15() { acc4_case(0, -15) }
+    #[kani::solver(kissat)] #[kani::unwind(6)] #[kani::stub(crate::arithmetic::fast_two_sum, g_fts)] #[kani::stub(TwoFloat::new_add, g_new_add)] #[kani::stub(TwoFloat::new_sub, g_new_sub)] fn acc4_add_gap_m14() { acc4_case(0, -14) }
+    #[kani::solver(kissat)] #[kani::unwind(6)] #[kani::stub(crate::arithmetic::fast_two_sum, g_fts)] #[kani::stub(TwoFloat::new_add, g_new_add)] #[kani::stub(TwoFloat::new_sub, g_new_sub)] fn acc4_add_gap_m13() { acc4_case(0, -13) }
+    #[kani::solver(kissat)] #[kani::unwind(6)] #[kani::stub(crate::arithmetic::fast_two_sum, g_fts)] #[kani::stub(TwoFloat::new_add, g_new_add)] #[kani::stub(TwoFloat::new_sub, g_new_sub)] fn acc4_add_gap_m12() { acc4_case(0, -12) }
+    #[kani::solver(kissat)] #[kani::unwind(6)] #[kani::stub(crate::arithmetic::fast_two_sum, g_fts)] #[kani::stub(TwoFloat::new_add, g_new_add)] #[kani::stub(TwoFloat::new_sub, g_new_sub)] fn acc4_add_gap_m11() { acc4_case(0, -11) }
+    #[kani::solver(kissat)] #[kani::unwind(6)] #[kani::stub(crate::arithmetic::fast_two_sum, g_fts)] #[kani::stub(TwoFloat::new_add, g_new_add)] #[kani::stub(TwoFloat::new_sub, g_new_sub)] fn acc4_add_gap_m10() { acc4_case(0, -10) }
+    #[kani::solver(kissat)] #[kani::unwind(6)] #[kani::stub(crate::arithmetic::fast_two_sum, g_fts)] #[kani::stub(TwoFloat::new_add, g_new_add)] #[kani::stub(TwoFloat::new_sub, g_new_sub)] fn acc4_add_gap_m9() { acc4_case(0, -9) }
+    #[kani::solver(kissat)] #[kani::unwind(6)] #[kani::stub(crate::arithmetic::fast_two_sum, g_fts)] #[kani::stub(TwoFloat::new_add, g_new_add)] #[kani::stub(TwoFloat::new_sub, g_new_sub)] fn acc4_add_gap_m8() { acc4_case(0, -8) }
+    #[kani::solver(kissat)] #[kani::unwind(6)] #[kani::stub(crate::arithmetic::fast_two_sum, g_fts)] #[kani::stub(TwoFloat::new_add, g_new_add)] #[kani::stub(TwoFloat::new_sub, g_new_sub)] fn acc4_add_gap_m7() { acc4_case(0, -7) }
+    #[kani::solver(kissat)] #[kani::unwind(6)] #[kani::stub(crate::arithmetic::fast_two_sum, g_fts)] #[kani::stub(TwoFloat::new_add, g_new_add)] #[kani::stub(TwoFloat::new_sub, g_new_sub)] fn acc4_add_gap_m6() { acc4_case(0, -6) }
+    #[kani::solver(kissat)] #[kani::unwind(6)] #[kani::stub(crate::arithmetic::fast_two_sum, g_fts)] #[kani::stub(TwoFloat::new_add, g_new_add)] #[kani::stub(TwoFloat::new_sub, g_new_sub)] fn acc4_add_gap_m5() { acc4_case(0, -5) }
+    #[kani::solver(kissat)] #[kani::unwind(6)] #[kani::stub(crate::arithmetic::fast_two_sum, g_fts)] #[kani::stub(TwoFloat::new_add, g_new_add)] #[kani::stub(TwoFloat::new_sub, g_new_sub)] fn acc4_add_gap_m4() { acc4_case(0, -4) }
+    #[kani::solver(kissat)] #[kani::unwind(6)] #[kani::stub(crate::arithmetic::fast_two_sum, g_fts)] #[kani::stub(TwoFloat::new_add, g_new_add)] #[kani::stub(TwoFloat::new_sub, g_new_sub)] fn acc4_add_gap_m3() { acc4_case(0, -3) }
+    #[kani::solver(kissat)] #[kani::unwind(6)] #[kani::stub(crate::arithmetic::fast_two_sum, g_fts)] #[kani::stub(TwoFloat::new_add, g_new_add)] #[kani::stub(TwoFloat::new_sub, g_new_sub)] fn acc4_add_gap_m2() { acc4_case(0, -2) }
+    #[kani::solver(kissat)] #[kani::unwind(6)] #[kani::stub(crate::arithmetic::fast_two_sum, g_fts)] #[kani::stub(TwoFloat::new_add, g_new_add)] #[kani::stub(TwoFloat::new_sub, g_new_sub)] fn acc4_add_gap_m1() { acc4_case(0, -1) }
+    #[kani::solver(kissat)] #[kani::unwind(6)] #[kani::stub(crate::arithmetic::fast_two_sum, g_fts)] #[kani::stub(TwoFloat::new_add, g_new_add)] #[kani::stub(TwoFloat::new_sub, g_new_sub)] fn acc4_add_gap_p0() { acc4_case(0, 0) }
+    #[kani::solver(kissat)] #[kani::unwind(6)] #[kani::stub(crate::arithmetic::fast_two_sum, g_fts)] #[kani::stub(TwoFloat::new_add, g_new_add)] #[kani::stub(TwoFloat::new_sub, g_new_sub)] fn acc4_add_gap_p1() { acc4_case(0, 1) }
+    #[kani::solver(kissat)] #[kani::unwind(6)] #[kani::stub(crate::arithmetic::fast_two_sum, g_fts)] #[kani::stub(TwoFloat::new_add, g_new_add)] #[kani::stub(TwoFloat::new_sub, g_new_sub)] fn acc4_add_gap_p2() { acc4_case(0, 2) }
+    #[kani::solver(kissat)] #[kani::unwind(6)] #[kani::stub(crate::arithmetic::fast_two_sum, g_fts)] #[kani::stub(TwoFloat::new_add, g_new_add)] #[kani::stub(TwoFloat::new_sub, g_new_sub)] fn acc4_add_gap_p3() { acc4_case(0, 3) }
+    #[kani::solver(kissat)] #[kani::unwind(6)] #[kani::stub(crate::arithmetic::fast_two_sum, g_fts)] #[kani::stub(TwoFloat::new_add, g_new_add)] #[kani::stub(TwoFloat::new_sub, g_new_sub)] fn acc4_add_gap_p4() { acc4_case(0, 4) }
+    #[kani::solver(kissat)] #[kani::unwind(6)] #[kani::stub(crate::arithmetic::fast_two_sum, g_fts)] #[kani::stub(TwoFloat::new_add, g_new_add)] #[kani::stub(TwoFloat::new_sub, g_new_sub)] fn acc4_add_gap_p5() { acc4_case(0, 5) }
+    #[kani::solver(kissat)] #[kani::unwind(6)] #[kani::stub(crate::arithmetic::fast_two_sum, g_fts)] #[kani::stub(TwoFloat::new_add, g_new_add)] #[kani::stub(TwoFloat::new_sub, g_new_sub)] fn acc4_add_gap_p6() { acc4_case(0, 6) }
+    #[kani::solver(kissat)] #[kani::unwind(6)] #[kani::stub(crate::arithmetic::fast_two_sum, g_fts)] #[kani::stub(TwoFloat::new_add, g_new_add)] #[kani::stub(TwoFloat::new_sub, g_new_sub)] fn acc4_add_gap_p7() { acc4_case(0, 7) }
+    #[kani::solver(kissat)] #[kani::unwind(6)] #[kani::stub(crate::arithmetic::fast_two_sum, g_fts)] #[kani::stub(TwoFloat::new_add, g_new_add)] #[kani::stub(TwoFloat::new_sub, g_new_sub)] fn acc4_add_gap_p8() { acc4_case(0, 8) }
+    #[kani::solver(kissat)] #[kani::unwind(6)] #[kani::stub(crate::arithmetic::fast_two_sum, g_fts)] #[kani::stub(TwoFloat::new_add, g_new_add)] #[kani::stub(TwoFloat::new_sub, g_new_sub)] fn acc4_add_gap_p9() { acc4_case(0, 9) }
+    #[kani::solver(kissat)] #[kani::unwind(6)] #[kani::stub(crate::arithmetic::fast_two_sum, g_fts)] #[kani::stub(TwoFloat::new_add, g_new_add)] #[kani::stub(TwoFloat::new_sub, g_new_sub)] fn acc4_add_gap_p10() { acc4_case(0, 10) }
+    #[kani::solver(kissat)] #[kani::unwind(6)] #[kani::stub(crate::arithmetic::fast_two_sum, g_fts)] #[kani::stub(TwoFloat::new_add, g_new_add)] #[kani::stub(TwoFloat::new_sub, g_new_sub)] fn acc4_add_gap_p11() { acc4_case(0, 11) }
+    #[kani::solver(kissat)] #[kani::unwind(6)] #[kani::stub(crate::arithmetic::fast_two_sum, g_fts)] #[kani::stub(TwoFloat::new_add, g_new_add)] #[kani::stub(TwoFloat::new_sub, g_new_sub)] fn acc4_add_gap_p12() { acc4_case(0, 12) }
+    #[kani::solver(kissat)] #[kani::unwind(6)] #[kani::stub(crate::arithmetic::fast_two_sum, g_fts)] #[kani::stub(TwoFloat::new_add, g_new_add)] #[kani::stub(TwoFloat::new_sub, g_new_sub)] fn acc4_add_gap_p13() { acc4_case(0, 13) }
+    #[kani::solver(kissat)] #[kani::unwind(6)] #[kani::stub(crate::arithmetic::fast_two_sum, g_fts)] #[kani::stub(TwoFloat::new_add, g_new_add)] #[kani::stub(TwoFloat::new_sub, g_new_sub)] fn acc4_add_gap_p14() { acc4_case(0, 14) }
+    #[kani::solver(kissat)] #[kani::unwind(6)] #[kani::stub(crate::arithmetic::fast_two_sum, g_fts)] #[kani::stub(TwoFloat::new_add, g_new_add)] #[kani::stub(TwoFloat::new_sub, g_new_sub)] fn acc4_add_gap_p15() { acc4_case(0, 15) }
+    #[kani::solver(kissat)] #[kani::unwind(6)] #[kani::stub(crate::arithmetic::fast_two_sum, g_fts)] #[kani::stub(TwoFloat::new_add, g_new_add)] #[kani::stub(TwoFloat::new_sub, g_new_sub)] fn acc4_add_gap_p16() { acc4_case(0, 16) }
+    #[kani::solver(kissat)] #[kani::unwind(6)] #[kani::stub(crate::arithmetic::fast_two_sum, g_fts)] #[kani::stub(TwoFloat::new_add, g_new_add)] #[kani::stub(TwoFloat::new_sub, g_new_sub)] fn acc4_add_gap_p17() { acc4_case(0, 17) }
+    #[kani::solver(kissat)] #[kani::unwind(6)] #[kani::stub(crate::arithmetic::fast_two_sum, g_fts)] #[kani::stub(TwoFloat::new_add, g_new_add)] #[kani::stub(TwoFloat::new_sub, g_new_sub)] fn acc4_add_gap_p18() { acc4_case(0, 18) }
+    #[kani::solver(kissat)] #[kani::unwind(6)] #[kani::stub(crate::arithmetic::fast_two_sum, g_fts)] #[kani::stub(TwoFloat::new_add, g_new_add)] #[kani::stub(TwoFloat::new_sub, g_new_sub)] fn acc4_add_gap_p19() { acc4_case(0, 19) }
+    #[kani::solver(kissat)] #[kani::unwind(6)] #[kani::stub(crate::arithmetic::fast_two_sum, g_fts)] #[kani::stub(TwoFloat::new_add, g_new_add)] #[kani::stub(TwoFloat::new_sub, g_new_sub)] fn acc4_add_gap_p20() { acc4_case(0, 20) }
+    #[kani::solver(kissat)] #[kani::unwind(6)] #[kani::stub(crate::arithmetic::fast_two_sum, g_fts)] #[kani::stub(TwoFloat::new_add, g_new_add)] #[kani::stub(TwoFloat::new_sub, g_new_sub)] fn acc4_add_gap_p21() { acc4_case(0, 21) }
+    #[kani::solver(kissat)] #[kani::unwind(6)] #[kani::stub(crate::arithmetic::fast_two_sum, g_fts)] #[kani::stub(TwoFloat::new_add, g_new_add)] #[kani::stub(TwoFloat::new_sub, g_new_sub)] fn acc4_add_gap_p22() { acc4_case(0, 22) }
+    #[kani::solver(kissat)] #[kani::unwind(6)] #[kani::stub(crate::arithmetic::fast_two_sum, g_fts)] #[kani::stub(TwoFloat::new_add, g_new_add)] #[kani::stub(TwoFloat::new_sub, g_new_sub)] fn acc4_add_gap_p23() { acc4_case(0, 23) }
+    #[kani::solver(kissat)] #[kani::unwind(6)] #[kani::stub(crate::arithmetic::fast_two_sum, g_fts)] #[kani::stub(TwoFloat::new_add, g_new_add)] #[kani::stub(TwoFloat::new_sub, g_new_sub)] fn acc4_add_gap_p24() { acc4_case(0, 24) }
+    #[kani::solver(kissat)] #[kani::unwind(6)] #[kani::stub(crate::arithmetic::fast_two_sum, g_fts)] #[kani::stub(TwoFloat::new_add, g_new_add)] #[kani::stub(TwoFloat::new_sub, g_new_sub)] fn acc4_add_gap_p25() { acc4_case(0, 25) }
+    #[kani::solver(kissat)] #[kani::unwind(6)] #[kani::stub(crate::arithmetic::fast_two_sum, g_fts)] #[kani::stub(TwoFloat::new_add, g_new_add)] #[kani::stub(TwoFloat::new_sub, g_new_sub)] fn acc4_add_gap_p26() { acc4_case(0, 26) }
+    #[kani::solver(kissat)] #[kani::unwind(6)] #[kani::stub(crate::arithmetic::fast_two_sum, g_fts)] #[kani::stub(TwoFloat::new_add, g_new_add)] #[kani::stub(TwoFloat::new_sub, g_new_sub)] fn acc4_add_gap_p27() { acc4_case(0, 27) }
+    #[kani::solver(kissat)] #[kani::unwind(6)] #[kani::stub(crate::arithmetic::fast_two_sum, g_fts)] #[kani::stub(TwoFloat::new_add, g_new_add)] #[kani::stub(TwoFloat::new_sub, g_new_sub)] fn acc4_add_gap_p28() { acc4_case(0, 28) }
+    #[kani::solver(kissat)] #[kani::unwind(6)] #[kani::stub(crate::arithmetic::fast_two_sum, g_fts)] #[kani::stub(TwoFloat::new_add, g_new_add)] #[kani::stub(TwoFloat::new_sub, g_new_sub)] fn acc4_add_gap_p29() { acc4_case(0, 29) }
+    #[kani::solver(kissat)] #[kani::unwind(6)] #[kani::stub(crate::arithmetic::fast_two_sum, g_fts)] #[kani::stub(TwoFloat::new_add, g_new_add)] #[kani::stub(TwoFloat::new_sub, g_new_sub)] fn acc4_add_gap_p30() { acc4_case(0, 30) }
+    #[kani::solver(kissat)] #[kani::unwind(6)] #[kani::stub(crate::arithmetic::fast_two_sum, g_fts)] #[kani::stub(TwoFloat::new_add, g_new_add)] #[kani::stub(TwoFloat::new_sub, g_new_sub)] fn acc4_add_gap_p31() { acc4_case(0, 31) }
+    #[kani::solver(kissat)] #[kani::unwind(6)] #[kani::stub(crate::arithmetic::fast_two_sum, g_fts)] #[kani::stub(TwoFloat::new_add, g_new_add)] #[kani::stub(TwoFloat::new_sub, g_new_sub)] fn acc4_add_gap_p32() { acc4_case(0, 32) }
+    #[kani::solver(kissat)] #[kani::unwind(6)] #[kani::stub(crate::arithmetic::fast_two_sum, g_fts)] #[kani::stub(TwoFloat::new_add, g_new_add)] #[kani::stub(TwoFloat::new_sub, g_new_sub)] fn acc4_add_gap_p33() { acc4_case(0, 33) }
+    #[kani::solver(kissat)] #[kani::unwind(6)] #[kani::stub(crate::arithmetic::fast_two_sum, g_fts)] #[kani::stub(TwoFloat::new_add, g_new_add)] #[kani::stub(TwoFloat::new_sub, g_new_sub)] fn acc4_add_gap_p34() { acc4_case(0, 34) }
+    #[kani::solver(kissat)] #[kani::unwind(6)] #[kani::stub(crate::arithmetic::fast_two_sum, g_fts)] #[kani::stub(TwoFloat::new_add, g_new_add)] #[kani::stub(TwoFloat::new_sub, g_new_sub)] fn acc4_add_gap_p35() { acc4_case(0, 35) }
+    #[kani::solver(kissat)] #[kani::unwind(6)] #[kani::stub(crate::arithmetic::fast_two_sum, g_fts)] #[kani::stub(TwoFloat::new_add, g_new_add)] #[kani::stub(TwoFloat::new_sub, g_new_sub)] fn acc4_add_gap_p36() { acc4_case(0, 36) }
+    #[kani::solver(kissat)] #[kani::unwind(6)] #[kani::stub(crate::arithmetic::fast_two_sum, g_fts)] #[kani::stub(TwoFloat::new_add, g_new_add)] #[kani::stub(TwoFloat::new_sub, g_new_sub)] fn acc4_add_gap_p37() { acc4_case(0, 37) }
+    #[kani::solver(kissat)] #[kani::unwind(6)] #[kani::stub(crate::arithmetic::fast_two_sum, g_fts)] #[kani::stub(TwoFloat::new_add, g_new_add)] #[kani::stub(TwoFloat::new_sub, g_new_sub)] fn acc4_add_gap_p38() { acc4_case(0, 38) }
+    #[kani::solver(kissat)] #[kani::unwind(6)] #[kani::stub(crate::arithmetic::fast_two_sum, g_fts)] #[kani::stub(TwoFloat::new_add, g_new_add)] #[kani::stub(TwoFloat::new_sub, g_new_sub)] fn acc4_add_gap_p39() { acc4_case(0, 39) }
+    #[kani::solver(kissat)] #[kani::unwind(6)] #[kani::stub(crate::arithmetic::fast_two_sum, g_fts)] #[kani::stub(TwoFloat::new_add, g_new_add)] #[kani::stub(TwoFloat::new_sub, g_new_sub)] fn acc4_add_gap_p40() { acc4_case(0, 40) }
+    #[kani::solver(kissat)] #[kani::unwind(6)] #[kani::stub(crate::arithmetic::fast_two_sum, g_fts)] #[kani::stub(TwoFloat::new_add, g_new_add)] #[kani::stub(TwoFloat::new_sub, g_new_sub)] fn acc4_add_gap_p41() { acc4_case(0, 41) }
+    #[kani::solver(kissat)] #[kani::unwind(6)] #[kani::stub(crate::arithmetic::fast_two_sum, g_fts)] #[kani::stub(TwoFloat::new_add, g_new_add)] #[kani::stub(TwoFloat::new_sub, g_new_sub)] fn acc4_add_gap_p42() { acc4_case(0, 42) }
+    #[kani::solver(kissat)] #[kani::unwind(6)] #[kani::stub(crate::arithmetic::fast_two_sum, g_fts)] #[kani::stub(TwoFloat::new_add, g_new_add)] #[kani::stub(TwoFloat::new_sub, g_new_sub)] fn acc4_add_gap_p43() { acc4_case(0, 43) }
+    #[kani::solver(kissat)] #[kani::unwind(6)] #[kani::stub(crate::arithmetic::fast_two_sum, g_fts)] #[kani::stub(TwoFloat::new_add, g_new_add)] #[kani::stub(TwoFloat::new_sub, g_new_sub)] fn acc4_add_gap_p44() { acc4_case(0, 44) }
+    #[kani::solver(kissat)] #[kani::unwind(6)] #[kani::stub(crate::arithmetic::fast_two_sum, g_fts)] #[kani::stub(TwoFloat::new_add, g_new_add)] #[kani::stub(TwoFloat::new_sub, g_new_sub)] fn acc4_add_gap_p45() { acc4_case(0, 45) }
+    #[kani::solver(kissat)] #[kani::unwind(6)] #[kani::stub(crate::arithmetic::fast_two_sum, g_fts)] #[kani::stub(TwoFloat::new_add, g_new_add)] #[kani::stub(TwoFloat::new_sub, g_new_sub)] fn acc4_add_gap_p46() { acc4_case(0, 46) }
+    #[kani::solver(kissat)] #[kani::unwind(6)] #[kani::stub(crate::arithmetic::fast_two_sum, g_fts)] #[kani::stub(TwoFloat::new_add, g_new_add)] #[kani::stub(TwoFloat::new_sub, g_new_sub)] fn acc4_add_gap_p47() { acc4_case(0, 47) }
+    #[kani::solver(kissat)] #[kani::unwind(6)] #[kani::stub(crate::arithmetic::fast_two_sum, g_fts)] #[kani::stub(TwoFloat::new_add, g_new_add)] #[kani::stub(TwoFloat::new_sub, g_new_sub)] fn acc4_add_gap_p48() { acc4_case(0, 48) }
+    #[kani::solver(kissat)] #[kani::unwind(6)] #[kani::stub(crate::arithmetic::fast_two_sum, g_fts)] #[kani::stub(TwoFloat::new_add, g_new_add)] #[kani::stub(TwoFloat::new_sub, g_new_sub)] fn acc4_add_gap_p49() { acc4_case(0, 49) }
+    #[kani::solver(kissat)] #[kani::unwind(6)] #[kani::stub(crate::arithmetic::fast_two_sum, g_fts)] #[kani::stub(TwoFloat::new_add, g_new_add)] #[kani::stub(TwoFloat::new_sub, g_new_sub)] fn acc4_add_gap_p50() { acc4_case(0, 50) }
+    #[kani::solver(kissat)] #[kani::unwind(6)] #[kani::stub(crate::arithmetic::fast_two_sum, g_fts)] #[kani::stub(TwoFloat::new_add, g_new_add)] #[kani::stub(TwoFloat::new_sub, g_new_sub)] fn acc4_add_gap_p51() { acc4_case(0, 51) }
+    #[kani::solver(kissat)] #[kani::unwind(6)] #[kani::stub(crate::arithmetic::fast_two_sum, g_fts)] #[kani::stub(TwoFloat::new_add, g_new_add)] #[kani::stub(TwoFloat::new_sub, g_new_sub)] fn acc4_add_gap_p52() { acc4_case(0, 52) }
+    #[kani::solver(kissat)] #[kani::unwind(6)] #[kani::stub(crate::arithmetic::fast_two_sum, g_fts)] #[kani::stub(TwoFloat::new_add, g_new_add)] #[kani::stub(TwoFloat::new_sub, g_new_sub)] fn acc4_add_gap_p53() { acc4_case(0, 53) }
+    #[kani::solver(kissat)] #[kani::unwind(6)] #[kani::stub(crate::arithmetic::fast_two_sum, g_fts)] #[kani::stub(TwoFloat::new_add, g_new_add)] #[kani::stub(TwoFloat::new_sub, g_new_sub)] fn acc4_add_gap_p54() { acc4_case(0, 54) }
+    #[kani::solver(kissat)] #[kani::unwind(6)] #[kani::stub(crate::arithmetic::fast_two_sum, g_fts)] #[kani::stub(TwoFloat::new_add, g_new_add)] #[kani::stub(TwoFloat::new_sub, g_new_sub)] fn acc4_add_gap_p55() { acc4_case(0, 55) }
+    #[kani::solver(kissat)] #[kani::unwind(6)] #[kani::stub(crate::arithmetic::fast_two_sum, g_fts)] #[kani::stub(TwoFloat::new_add, g_new_add)] #[kani::stub(TwoFloat::new_sub, g_new_sub)] fn acc4_add_gap_p56() { acc4_case(0, 56) }
+    #[kani::solver(kissat)] #[kani::unwind(6)] #[kani::stub(crate::arithmetic::fast_two_sum, g_fts)] #[kani::stub(TwoFloat::new_add, g_new_add)] #[kani::stub(TwoFloat::new_sub, g_new_sub)] fn acc4_add_gap_p57() { acc4_case(0, 57) }
+    #[kani::solver(kissat)] #[kani::unwind(6)] #[kani::stub(crate::arithmetic::fast_two_sum, g_fts)] #[kani::stub(TwoFloat::new_add, g_new_add)] #[kani::stub(TwoFloat::new_sub, g_new_sub)] fn acc4_add_gap_p58() { acc4_case(0, 58) }
+    #[kani::solver(kissat)] #[kani::unwind(6)] #[kani::stub(crate::arithmetic::fast_two_sum, g_fts)] #[kani::stub(TwoFloat::new_add, g_new_add)] #[kani::stub(TwoFloat::new_sub, g_new_sub)] fn acc4_add_gap_p59() { acc4_case(0, 59) }
+    #[kani::solver(kissat)] #[kani::unwind(6)] #[kani::stub(crate::arithmetic::fast_two_sum, g_fts)] #[kani::stub(TwoFloat::new_add, g_new_add)] #[kani::stub(TwoFloat::new_sub, g_new_sub)] fn acc4_add_gap_p60() { acc4_case(0, 60) }
+    #[kani::solver(kissat)] #[kani::unwind(6)] #[kani::stub(crate::arithmetic::fast_two_sum, g_fts)] #[kani::stub(TwoFloat::new_add, g_new_add)] #[kani::stub(TwoFloat::new_sub, g_new_sub)] fn acc4_add_far_p() { acc4_case(0, 1000) }
+    #[kani::solver(kissat)] #[kani::unwind(6)] #[kani::stub(crate::arithmetic::fast_two_sum, g_fts)] #[kani::stub(TwoFloat::new_add, g_new_add)] #[kani::stub(TwoFloat::new_sub, g_new_sub)] fn acc4_add_far_m() { acc4_case(0, -1000) }
+    #[kani::solver(kissat)] #[kani::unwind(6)] #[kani::stub(crate::arithmetic::fast_two_sum, g_fts)] #[kani::stub(TwoFloat::new_add, g_new_add)] #[kani::stub(TwoFloat::new_sub, g_new_sub)] fn acc4_sub_gap_m60() { acc4_case(1, -60) }
+    #[kani::solver(kissat)] #[kani::unwind(6)] #[kani::stub(crate::arithmetic::fast_two_sum, g_fts)] #[kani::stub(TwoFloat::new_add, g_new_add)] #[kani::stub(TwoFloat::new_sub, g_new_sub)] fn acc4_sub_gap_m59() { acc4_case(1, -59) }
+    #[kani::solver(kissat)] #[kani::unwind(6)] #[kani::stub(crate::arithmetic::fast_two_sum, g_fts)] #[kani::stub(TwoFloat::new_add, g_new_add)] #[kani::stub(TwoFloat::new_sub, g_new_sub)] fn acc4_sub_gap_m58() { acc4_case(1, -58) }
+    #[kani::solver(kissat)] #[kani::unwind(6)] #[kani::stub(crate::arithmetic::fast_two_sum, g_fts)] #[kani::stub(TwoFloat::new_add, g_new_add)] #[kani::stub(TwoFloat::new_sub, g_new_sub)] fn acc4_sub_gap_m57() { acc4_case(1, -57) }
+    #[kani::solver(kissat)] #[kani::unwind(6)] #[kani::stub(crate::arithmetic::fast_two_sum, g_fts)] #[kani::stub(TwoFloat::new_add, g_new_add)] #[kani::stub(TwoFloat::new_sub, g_new_sub)] fn acc4_sub_gap_m56() { acc4_case(1, -56) }
+    #[kani::solver(kissat)] #[kani::unwind(6)] #[kani::stub(crate::arithmetic::fast_two_sum, g_fts)] #[kani::stub(TwoFloat::new_add, g_new_add)] #[kani::stub(TwoFloat::new_sub, g_new_sub)] fn acc4_sub_gap_m55() { acc4_case(1, -55) }
+    #[kani::solver(kissat)] #[kani::unwind(6)] #[kani::stub(crate::arithmetic::fast_two_sum, g_fts)] #[kani::stub(TwoFloat::new_add, g_new_add)] #[kani::stub(TwoFloat::new_sub, g_new_sub)] fn acc4_sub_gap_m54() { acc4_case(1, -54) }
+    #[kani::solver(kissat)] #[kani::unwind(6)] #[kani::stub(crate::arithmetic::fast_two_sum, g_fts)] #[kani::stub(TwoFloat::new_add, g_new_add)] #[kani::stub(TwoFloat::new_sub, g_new_sub)] fn acc4_sub_gap_m53() { acc4_case(1, -53) }
+    #[kani::solver(kissat)] #[kani::unwind(6)] #[kani::stub(crate::arithmetic::fast_two_sum, g_fts)] #[kani::stub(TwoFloat::new_add, g_new_add)] #[kani::stub(TwoFloat::new_sub, g_new_sub)] fn acc4_sub_gap_m52() { acc4_case(1, -52) }
+    #[kani::solver(kissat)] #[kani::unwind(6)] #[kani::stub(crate::arithmetic::fast_two_sum, g_fts)] #[kani::stub(TwoFloat::new_add, g_new_add)] #[kani::stub(TwoFloat::new_sub, g_new_sub)] fn acc4_sub_gap_m51() { acc4_case(1, -51) }
+    #[kani::solver(kissat)] #[kani::unwind(6)] #[kani::stub(crate::arithmetic::fast_two_sum, g_fts)] #[kani::stub(TwoFloat::new_add, g_new_add)] #[kani::stub(TwoFloat::new_sub, g_new_sub)] fn acc4_sub_gap_m50() { acc4_case(1, -50) }
+    #[kani::solver(kissat)] #[kani::unwind(6)] #[kani::stub(crate::arithmetic::fast_two_sum, g_fts)] #[kani::stub(TwoFloat::new_add, g_new_add)] #[kani::stub(TwoFloat::new_sub, g_new_sub)] fn acc4_sub_gap_m49() { acc4_case(1, -49) }
+    #[kani::solver(kissat)] #[kani::unwind(6)] #[kani::stub(crate::arithmetic::fast_two_sum, g_fts)] #[kani::stub(TwoFloat::new_add, g_new_add)] #[kani::stub(TwoFloat::new_sub, g_new_sub)] fn acc4_sub_gap_m48() { acc4_case(1, -48) }
+    #[kani::solver(kissat)] #[kani::unwind(6)] #[kani::stub(crate::arithmetic::fast_two_sum, g_fts)] #[kani::stub(TwoFloat::new_add, g_new_add)] #[kani::stub(TwoFloat::new_sub, g_new_sub)] fn acc4_sub_gap_m47() { acc4_case(1, -47) }
+    #[kani::solver(kissat)] #[kani::unwind(6)] #[kani::stub(crate::arithmetic::fast_two_sum, g_fts)] #[kani::stub(TwoFloat::new_add, g_new_add)] #[kani::stub(TwoFloat::new_sub, g_new_sub)] fn acc4_sub_gap_m46() { acc4_case(1, -46) }
+    #[kani::solver(kissat)] #[kani::unwind(6)] #[kani::stub(crate::arithmetic::fast_two_sum, g_fts)] #[kani::stub(TwoFloat::new_add, g_new_add)] #[kani::stub(TwoFloat::new_sub, g_new_sub)] fn acc4_sub_gap_m45() { acc4_case(1, -45) }
+    #[kani::solver(kissat)] #[kani::unwind(6)] #[kani::stub(crate::arithmetic::fast_two_sum, g_fts)] #[kani::stub(TwoFloat::new_add, g_new_add)] #[kani::stub(TwoFloat::new_sub, g_new_sub)] fn acc4_sub_gap_m44() { acc4_case(1, -44) }
+    #[kani::solver(kissat)] #[kani::unwind(6)] #[kani::stub(crate::arithmetic::fast_two_sum, g_fts)] #[kani::stub(TwoFloat::new_add, g_new_add)] #[kani::stub(TwoFloat::new_sub, g_new_sub)] fn acc4_sub_gap_m43() { acc4_case(1, -43) }
+    #[kani::solver(kissat)] #[kani::unwind(6)] #[kani::stub(crate::arithmetic::fast_two_sum, g_fts)] #[kani::stub(TwoFloat::new_add, g_new_add)] #[kani::stub(TwoFloat::new_sub, g_new_sub)] fn acc4_sub_gap_m42() { acc4_case(1, -42) }
+    #[kani::solver(kissat)] #[kani::unwind(6)] #[kani::stub(crate::arithmetic::fast_two_sum, g_fts)] #[kani::stub(TwoFloat::new_add, g_new_add)] #[kani::stub(TwoFloat::new_sub, g_new_sub)] fn acc4_sub_gap_m41() { acc4_case(1, -41) }
+    #[kani::solver(kissat)] #[kani::unwind(6)] #[kani::stub(crate::arithmetic::fast_two_sum, g_fts)] #[kani::stub(TwoFloat::new_add, g_new_add)] #[kani::stub(TwoFloat::new_sub, g_new_sub)] fn acc4_sub_gap_m40() { acc4_case(1, -40) }
+    #[kani::solver(kissat)] #[kani::unwind(6)] #[kani::stub(crate::arithmetic::fast_two_sum, g_fts)] #[kani::stub(TwoFloat::new_add, g_new_add)] #[kani::stub(TwoFloat::new_sub, g_new_sub)] fn acc4_sub_gap_m39() { acc4_case(1, -39) }
+    #[kani::solver(kissat)] #[kani::unwind(6)] #[kani::stub(crate::arithmetic::fast_two_sum, g_fts)] #[kani::stub(TwoFloat::new_add, g_new_add)] #[kani::stub(TwoFloat::new_sub, g_new_sub)] fn acc4_sub_gap_m38() { acc4_case(1, -38) }
+    #[kani::solver(kissat)] #[kani::unwind(6)] #[kani::stub(crate::arithmetic::fast_two_sum, g_fts)] #[kani::stub(TwoFloat::new_add, g_new_add)] #[kani::stub(TwoFloat::new_sub, g_new_sub)] fn acc4_sub_gap_m37() { acc4_case(1, -37) }
+    #[kani::solver(kissat)] #[kani::unwind(6)] #[kani::stub(crate::arithmetic::fast_two_sum, g_fts)] #[kani::stub(TwoFloat::new_add, g_new_add)] #[kani::stub(TwoFloat::new_sub, g_new_sub)] fn acc4_sub_gap_m36() { acc4_case(1, -36) }
+    #[kani::solver(kissat)] #[kani::unwind(6)] #[kani::stub(crate::arithmetic::fast_two_sum, g_fts)] #[kani::stub(TwoFloat::new_add, g_new_add)] #[kani::stub(TwoFloat::new_sub, g_new_sub)] fn acc4_sub_gap_m35() { acc4_case(1, -35) }
+    #[kani::solver(kissat)] #[kani::unwind(6)] #[kani::stub(crate::arithmetic::fast_two_sum, g_fts)] #[kani::stub(TwoFloat::new_add, g_new_add)] #[kani::stub(TwoFloat::new_sub, g_new_sub)] fn acc4_sub_gap_m34() { acc4_case(1, -34) }
+    #[kani::solver(kissat)] #[kani::unwind(6)] #[kani::stub(crate::arithmetic::fast_two_sum, g_fts)] #[kani::stub(TwoFloat::new_add, g_new_add)] #[kani::stub(TwoFloat::new_sub, g_new_sub)] fn acc4_sub_gap_m33() { acc4_case(1, -33) }
+    #[kani::solver(kissat)] #[kani::unwind(6)] #[kani::stub(crate::arithmetic::fast_two_sum, g_fts)] #[kani::stub(TwoFloat::new_add, g_new_add)] #[kani::stub(TwoFloat::new_sub, g_new_sub)] fn acc4_sub_gap_m32() { acc4_case(1, -32) }
+    #[kani::solver(kissat)] #[kani::unwind(6)] #[kani::stub(crate::arithmetic::fast_two_sum, g_fts)] #[kani::stub(TwoFloat::new_add, g_new_add)] #[kani::stub(TwoFloat::new_sub, g_new_sub)] fn acc4_sub_gap_m31() { acc4_case(1, -31) }
+    #[kani::solver(kissat)] #[kani::unwind(6)] #[kani::stub(crate::arithmetic::fast_two_sum, g_fts)] #[kani::stub(TwoFloat::new_add, g_new_add)] #[kani::stub(TwoFloat::new_sub, g_new_sub)] fn acc4_sub_gap_m30() { acc4_case(1, -30) }
+    #[kani::solver(kissat)] #[kani::unwind(6)] #[kani::stub(crate::arithmetic::fast_two_sum, g_fts)] #[kani::stub(TwoFloat::new_add, g_new_add)] #[kani::stub(TwoFloat::new_sub, g_new_sub)] fn acc4_sub_gap_m29() { acc4_case(1, -29) }
+    #[kani::solver(kissat)] #[kani::unwind(6)] #[kani::stub(crate::arithmetic::fast_two_sum, g_fts)] #[kani::stub(TwoFloat::new_add, g_new_add)] #[kani::stub(TwoFloat::new_sub, g_new_sub)] fn acc4_sub_gap_m28() { acc4_case(1, -28) }
+    #[kani::solver(kissat)] #[kani::unwind(6)] #[kani::stub(crate::arithmetic::fast_two_sum, g_fts)] #[kani::stub(TwoFloat::new_add, g_new_add)] #[kani::stub(TwoFloat::new_sub, g_new_sub)] fn acc4_sub_gap_m27() { acc4_case(1, -27) }
+    #[kani::solver(kissat)] #[kani::unwind(6)] #[kani::stub(crate::arithmetic::fast_two_sum, g_fts)] #[kani::stub(TwoFloat::new_add, g_new_add)] #[kani::stub(TwoFloat::new_sub, g_new_sub)] fn acc4_sub_gap_m26() { acc4_case(1, -26) }
+    #[kani::solver(kissat)] #[kani::unwind(6)] #[kani::stub(crate::arithmetic::fast_two_sum, g_fts)] #[kani::stub(TwoFloat::new_add, g_new_add)] #[kani::stub(TwoFloat::new_sub, g_new_sub)] fn acc4_sub_gap_m25() { acc4_case(1, -25) }
+    #[kani::solver(kissat)] #[kani::unwind(6)] #[kani::stub(crate::arithmetic::fast_two_sum, g_fts)] #[kani::stub(TwoFloat::new_add, g_new_add)] #[kani::stub(TwoFloat::new_sub, g_new_sub)] fn acc4_sub_gap_m24() { acc4_case(1, -24) }
+    #[kani::solver(kissat)] #[kani::unwind(6)] #[kani::stub(crate::arithmetic::fast_two_sum, g_fts)] #[kani::stub(TwoFloat::new_add, g_new_add)] #[kani::stub(TwoFloat::new_sub, g_new_sub)] fn acc4_sub_gap_m23() { acc4_case(1, -23) }
+    #[kani::solver(kissat)] #[kani::unwind(6)] #[kani::stub(crate::arithmetic::fast_two_sum, g_fts)] #[kani::stub(TwoFloat::new_add, g_new_add)] #[kani::stub(TwoFloat::new_sub, g_new_sub)] fn acc4_sub_gap_m22() { acc4_case(1, -22) }
+    #[kani::solver(kissat)] #[kani::unwind(6)] #[kani::stub(crate::arithmetic::fast_two_sum, g_fts)] #[kani::stub(TwoFloat::new_add, g_new_add)] #[kani::stub(TwoFloat::new_sub, g_new_sub)] fn acc4_sub_gap_m21() { acc4_case(1, -21) }
+    #[kani::solver(kissat)] #[kani::unwind(6)] #[kani::stub(crate::arithmetic::fast_two_sum, g_fts)] #[kani::stub(TwoFloat::new_add, g_new_add)] #[kani::stub(TwoFloat::new_sub, g_new_sub)] fn acc4_sub_gap_m20() { acc4_case(1, -20) }
+    #[kani::solver(kissat)] #[kani::unwind(6)] #[kani::stub(crate::arithmetic::fast_two_sum, g_fts)] #[kani::stub(TwoFloat::new_add, g_new_add)] #[kani::stub(TwoFloat::new_sub, g_new_sub)] fn acc4_sub_gap_m19() { acc4_case(1, -19) }
+    #[kani::solver(kissat)] #[kani::unwind(6)] #[kani::stub(crate::arithmetic::fast_two_sum, g_fts)] #[kani::stub(TwoFloat::new_add, g_new_add)] #[kani::stub(TwoFloat::new_sub, g_new_sub)] fn acc4_sub_gap_m18() { acc4_case(1, -18) }
+    #[kani::solver(kissat)] #[kani::unwind(6)] #[kani::stub(crate::arithmetic::fast_two_sum, g_fts)] #[kani::stub(TwoFloat::new_add, g_new_add)] #[kani::stub(TwoFloat::new_sub, g_new_sub)] fn acc4_sub_gap_m17() { acc4_case(1, -17) }
+    #[kani::solver(kissat)] #[kani::unwind(6)] #[kani::stub(crate::arithmetic::fast_two_sum, g_fts)] #[kani::stub(TwoFloat::new_add, g_new_add)] #[kani::stub(TwoFloat::new_sub, g_new_sub)] fn acc4_sub_gap_m16() { acc4_case(1, -16) }
+    #[kani::solver(kissat)] #[kani::unwind(6)] #[kani::stub(crate::arithmetic::fast_two_sum, g_fts)] #[kani::stub(TwoFloat::new_add, g_new_add)] #[kani::stub(TwoFloat::new_sub, g_new_sub)] fn acc4_sub_gap_m15() { acc4_case(1, -15) }
+    #[kani::solver(kissat)] #[kani::unwind(6)] #[kani::stub(crate::arithmetic::fast_two_sum, g_fts)] #[kani::stub(TwoFloat::new_add, g_new_add)] #[kani::stub(TwoFloat::new_sub, g_new_sub)] fn acc4_sub_gap_m14() { acc4_case(1, -14) }
+    #[kani::solver(kissat)] #[kani::unwind(6)] #[kani::stub(crate::arithmetic::fast_two_sum, g_fts)] #[kani::stub(TwoFloat::new_add, g_new_add)] #[kani::stub(TwoFloat::new_sub, g_new_sub)] fn acc4_sub_gap_m13() { acc4_case(1, -13) }
+    #[kani::solver(kissat)] #[kani::unwind(6)] #[kani::stub(crate::arithmetic::fast_two_sum, g_fts)] #[kani::stub(TwoFloat::new_add, g_new_add)] #[kani::stub(TwoFloat::new_sub, g_new_sub)] fn acc4_sub_gap_m12() { acc4_case(1, -12) }
+    #[kani::solver(kissat)] #[kani::unwind(6)] #[kani::stub(crate::arithmetic::fast_two_sum, g_fts)] #[kani::stub(TwoFloat::new_add, g_new_add)] #[kani::stub(TwoFloat::new_sub, g_new_sub)] fn acc4_sub_gap_m11() { acc4_case(1, -11) }
+    #[kani::solver(kissat)] #[kani::unwind(6)] #[kani::stub(crate::arithmetic::fast_two_sum, g_fts)] #[kani::stub(TwoFloat::new_add, g_new_add)] #[kani::stub(TwoFloat::new_sub, g_new_sub)] fn acc4_sub_gap_m10() { acc4_case(1, -10) }
+    #[kani::solver(kissat)] #[kani::unwind(6)] #[kani::stub(crate::arithmetic::fast_two_sum, g_fts)] #[kani::stub(TwoFloat::new_add, g_new_add)] #[kani::stub(TwoFloat::new_sub, g_new_sub)] fn acc4_sub_gap_m9() { acc4_case(1, -9) }
+    #[kani::solver(kissat)] #[kani::unwind(6)] #[kani::stub(crate::arithmetic::fast_two_sum, g_fts)] #[kani::stub(TwoFloat::new_add, g_new_add)] #[kani::stub(TwoFloat::new_sub, g_new_sub)] fn acc4_sub_gap_m8() { acc4_case(1, -8) }
+    #[kani::solver(kissat)] #[kani::unwind(6)] #[kani::stub(crate::arithmetic::fast_two_sum, g_fts)] #[kani::stub(TwoFloat::new_add, g_new_add)] #[kani::stub(TwoFloat::new_sub, g_new_sub)] fn acc4_sub_gap_m7() { acc4_case(1, -7) }
+    #[kani::solver(kissat)] #[kani::unwind(6)] #[kani::stub(crate::arithmetic::fast_two_sum, g_fts)] #[kani::stub(TwoFloat::new_add, g_new_add)] #[kani::stub(TwoFloat::new_sub, g_new_sub)] fn acc4_sub_gap_m6() { acc4_case(1, -6) }
+    #[kani::solver(kissat)] #[kani::unwind(6)] #[kani::stub(crate::arithmetic::fast_two_sum, g_fts)] #[kani::stub(TwoFloat::new_add, g_new_add)] #[kani::stub(TwoFloat::new_sub, g_new_sub)] fn acc4_sub_gap_m5() { acc4_case(1, -5) }
+    #[kani::solver(kissat)] #[kani::unwind(6)] #[kani::stub(crate::arithmetic::fast_two_sum, g_fts)] #[kani::stub(TwoFloat::new_add, g_new_add)] #[kani::stub(TwoFloat::new_sub, g_new_sub)] fn acc4_sub_gap_m4() { acc4_case(1, -4) }
+    #[kani::solver(kissat)] #[kani::unwind(6)] #[kani::stub(crate::arithmetic::fast_two_sum, g_fts)] #[kani::stub(TwoFloat::new_add, g_new_add)] #[kani::stub(TwoFloat::new_sub, g_new_sub)] fn acc4_sub_gap_m3() { acc4_case(1, -3) }
+    #[kani::solver(kissat)] #[kani::unwind(6)] #[kani::stub(crate::arithmetic::fast_two_sum, g_fts)] #[kani::stub(TwoFloat::new_add, g_new_add)] #[kani::stub(TwoFloat::new_sub, g_new_sub)] fn acc4_sub_gap_m2() { acc4_case(1, -2) }
+    #[kani::solver(kissat)] #[kani::unwind(6)] #[kani::stub(crate::arithmetic::fast_two_sum, g_fts)] #[kani::stub(TwoFloat::new_add, g_new_add)] #[kani::stub(TwoFloat::new_sub, g_new_sub)] fn acc4_sub_gap_m1() { acc4_case(1, -1) }
+    #[kani::solver(kissat)] #[kani::unwind(6)] #[kani::stub(crate::arithmetic::fast_two_sum, g_fts)] #[kani::stub(TwoFloat::new_add, g_new_add)] #[kani::stub(TwoFloat::new_sub, g_new_sub)] fn acc4_sub_gap_p0() { acc4_case(1, 0) }
+    #[kani::solver(kissat)] #[kani::unwind(6)] #[kani::stub(crate::arithmetic::fast_two_sum, g_fts)] #[kani::stub(TwoFloat::new_add, g_new_add)] #[kani::stub(TwoFloat::new_sub, g_new_sub)] fn acc4_sub_gap_p1() { acc4_case(1, 1) }
+    #[kani::solver(kissat)] #[kani::unwind(6)] #[kani::stub(crate::arithmetic::fast_two_sum, g_fts)] #[kani::stub(TwoFloat::new_add, g_new_add)] #[kani::stub(TwoFloat::new_sub, g_new_sub)] fn acc4_sub_gap_p2() { acc4_case(1, 2) }
+    #[kani::solver(kissat)] #[kani::unwind(6)] #[kani::stub(crate::arithmetic::fast_two_sum, g_fts)] #[kani::stub(TwoFloat::new_add, g_new_add)] #[kani::stub(TwoFloat::new_sub, g_new_sub)] fn acc4_sub_gap_p3() { acc4_case(1, 3) }
+    #[kani::solver(kissat)] #[kani::unwind(6)] #[kani::stub(crate::arithmetic::fast_two_sum, g_fts)] #[kani::stub(TwoFloat::new_add, g_new_add)] #[kani::stub(TwoFloat::new_sub, g_new_sub)] fn acc4_sub_gap_p4() { acc4_case(1, 4) }
+    #[kani::solver(kissat)] #[kani::unwind(6)] #[kani::stub(crate::arithmetic::fast_two_sum, g_fts)] #[kani::stub(TwoFloat::new_add, g_new_add)] #[kani::stub(TwoFloat::new_sub, g_new_sub)] fn acc4_sub_gap_p5() { acc4_case(1, 5) }
+    #[kani::solver(kissat)] #[kani::unwind(6)] #[kani::stub(crate::arithmetic::fast_two_sum, g_fts)] #[kani::stub(TwoFloat::new_add, g_new_add)] #[kani::stub(TwoFloat::new_sub, g_new_sub)] fn acc4_sub_gap_p6() { acc4_case(1, 6) }
+    #[kani::solver(kissat)] #[kani::unwind(6)] #[kani::stub(crate::arithmetic::fast_two_sum, g_fts)] #[kani::stub(TwoFloat::new_add, g_new_add)] #[kani::stub(TwoFloat::new_sub, g_new_sub)] fn acc4_sub_gap_p7() { acc4_case(1, 7) }
+    #[kani::solver(kissat)] #[kani::unwind(6)] #[kani::stub(crate::arithmetic::fast_two_sum, g_fts)] #[kani::stub(TwoFloat::new_add, g_new_add)] #[kani::stub(TwoFloat::new_sub, g_new_sub)] fn acc4_sub_gap_p8() { acc4_case(1, 8) }
+    #[kani::solver(kissat)] #[kani::unwind(6)] #[kani::stub(crate::arithmetic::fast_two_sum, g_fts)] #[kani::stub(TwoFloat::new_add, g_new_add)] #[kani::stub(TwoFloat::new_sub, g_new_sub)] fn acc4_sub_gap_p9() { acc4_case(1, 9) }
+    #[kani::solver(kissat)] #[kani::unwind(6)] #[kani::stub(crate::arithmetic::fast_two_sum, g_fts)] #[kani::stub(TwoFloat::new_add, g_new_add)] #[kani::stub(TwoFloat::new_sub, g_new_sub)] fn acc4_sub_gap_p10() { acc4_case(1, 10) }
+    #[kani::solver(kissat)] #[kani::unwind(6)] #[kani::stub(crate::arithmetic::fast_two_sum, g_fts)] #[kani::stub(TwoFloat::new_add, g_new_add)] #[kani::stub(TwoFloat::new_sub, g_new_sub)] fn acc4_sub_gap_p11() { acc4_case(1, 11) }
+    #[kani::solver(kissat)] #[kani::unwind(6)] #[kani::stub(crate::arithmetic::fast_two_sum, g_fts)] #[kani::stub(TwoFloat::new_add, g_new_add)] #[kani::stub(TwoFloat::new_sub, g_new_sub)] fn acc4_sub_gap_p12() { acc4_case(1, 12) }
+    #[kani::solver(kissat)] #[kani::unwind(6)] #[kani::stub(crate::arithmetic::fast_two_sum, g_fts)] #[kani::stub(TwoFloat::new_add, g_new_add)] #[kani::stub(TwoFloat::new_sub, g_new_sub)] fn acc4_sub_gap_p13() { acc4_case(1, 13) }
+    #[kani::solver(kissat)] #[kani::unwind(6)] #[kani::stub(crate::arithmetic::fast_two_sum, g_fts)] #[kani::stub(TwoFloat::new_add, g_new_add)] #[kani::stub(TwoFloat::new_sub, g_new_sub)] fn acc4_sub_gap_p14() { acc4_case(1, 14) }
+    #[kani::solver(kissat)] #[kani::unwind(6)] #[kani::stub(crate::arithmetic::fast_two_sum, g_fts)] #[kani::stub(TwoFloat::new_add, g_new_add)] #[kani::stub(TwoFloat::new_sub, g_new_sub)] fn acc4_sub_gap_p15() { acc4_case(1, 15) }
+    #[kani::solver(kissat)] #[kani::unwind(6)] #[kani::stub(crate::arithmetic::fast_two_sum, g_fts)] #[kani::stub(TwoFloat::new_add, g_new_add)] #[kani::stub(TwoFloat::new_sub, g_new_sub)] fn acc4_sub_gap_p16() { acc4_case(1, 16) }
+    #[kani::solver(kissat)] #[kani::unwind(6)] #[kani::stub(crate::arithmetic::fast_two_sum, g_fts)] #[kani::stub(TwoFloat::new_add, g_new_add)] #[kani::stub(TwoFloat::new_sub, g_new_sub)] fn acc4_sub_gap_p17() { acc4_case(1, 17) }
+    #[kani::solver(kissat)] #[kani::unwind(6)] #[kani::stub(crate::arithmetic::fast_two_sum, g_fts)] #[kani::stub(TwoFloat::new_add, g_new_add)] #[kani::stub(TwoFloat::new_sub, g_new_sub)] fn acc4_sub_gap_p18() { acc4_case(1, 18) }
+    #[kani::solver(kissat)] #[kani::unwind(6)] #[kani::stub(crate::arithmetic::fast_two_sum, g_fts)] #[kani::stub(TwoFloat::new_add, g_new_add)] #[kani::stub(TwoFloat::new_sub, g_new_sub)] fn acc4_sub_gap_p19() { acc4_case(1, 19) }
+    #[kani::solver(kissat)] #[kani::unwind(6)] #[kani::stub(crate::arithmetic::fast_two_sum, g_fts)] #[kani::stub(TwoFloat::new_add, g_new_add)] #[kani::stub(TwoFloat::new_sub, g_new_sub)] fn acc4_sub_gap_p20() { acc4_case(1, 20) }
+    #[kani::solver(kissat)] #[kani::unwind(6)] #[kani::stub(crate::arithmetic::fast_two_sum, g_fts)] #[kani::stub(TwoFloat::new_add, g_new_add)] #[kani::stub(TwoFloat::new_sub, g_new_sub)] fn acc4_sub_gap_p21() { acc4_case(1, 21) }
+    #[kani::solver(kissat)] #[kani::unwind(6)] #[kani::stub(crate::arithmetic::fast_two_sum, g_fts)] #[kani::stub(TwoFloat::new_add, g_new_add)] #[kani::stub(TwoFloat::new_sub, g_new_sub)] fn acc4_sub_gap_p22() { acc4_case(1, 22) }
+    #[kani::solver(kissat)] #[kani::unwind(6)] #[kani::stub(crate::arithmetic::fast_two_sum, g_fts)] #[kani::stub(TwoFloat::new_add, g_new_add)] #[kani::stub(TwoFloat::new_sub, g_new_sub)] fn acc4_sub_gap_p23() { acc4_case(1, 23) }
+    #[kani::solver(kissat)] #[kani::unwind(6)] #[kani::stub(crate::arithmetic::fast_two_sum, g_fts)] #[kani::stub(TwoFloat::new_add, g_new_add)] #[kani::stub(TwoFloat::new_sub, g_new_sub)] fn acc4_sub_gap_p24() { acc4_case(1, 24) }
+    #[kani::solver(kissat)] #[kani::unwind(6)] #[kani::stub(crate::arithmetic::fast_two_sum, g_fts)] #[kani::stub(TwoFloat::new_add, g_new_add)] #[kani::stub(TwoFloat::new_sub, g_new_sub)] fn acc4_sub_gap_p25() { acc4_case(1, 25) }
+    #[kani::solver(kissat)] #[kani::unwind(6)] #[kani::stub(crate::arithmetic::fast_two_sum, g_fts)] #[kani::stub(TwoFloat::new_add, g_new_add)] #[kani::stub(TwoFloat::new_sub, g_new_sub)] fn acc4_sub_gap_p26() { acc4_case(1, 26) }
+    #[kani::solver(kissat)] #[kani::unwind(6)] #[kani::stub(crate::arithmetic::fast_two_sum, g_fts)] #[kani::stub(TwoFloat::new_add, g_new_add)] #[kani::stub(TwoFloat::new_sub, g_new_sub)] fn acc4_sub_gap_p27() { acc4_case(1, 27) }
+    #[kani::solver(kissat)] #[kani::unwind(6)] #[kani::stub(crate::arithmetic::fast_two_sum, g_fts)] #[kani::stub(TwoFloat::new_add, g_new_add)] #[kani::stub(TwoFloat::new_sub, g_new_sub)] fn acc4_sub_gap_p28() { acc4_case(1, 28) }
+    #[kani::solver(kissat)] #[kani::unwind(6)] #[kani::stub(crate::arithmetic::fast_two_sum, g_fts)] #[kani::stub(TwoFloat::new_add, g_new_add)] #[kani::stub(TwoFloat::new_sub, g_new_sub)] fn acc4_sub_gap_p29() { acc4_case(1, 29) }
+    #[kani::solver(kissat)] #[kani::unwind(6)] #[kani::stub(crate::arithmetic::fast_two_sum, g_fts)] #[kani::stub(TwoFloat::new_add, g_new_add)] #[kani::stub(TwoFloat::new_sub, g_new_sub)] fn acc4_sub_gap_p30() { acc4_case(1, 30) }
+    #[kani::solver(kissat)] #[kani::unwind(6)] #[kani::stub(crate::arithmetic::fast_two_sum, g_fts)] #[kani::stub(TwoFloat::new_add, g_new_add)] #[kani::stub(TwoFloat::new_sub, g_new_sub)] fn acc4_sub_gap_p31() { acc4_case(1, 31) }
+    #[kani::solver(kissat)] #[kani::unwind(6)] #[kani::stub(crate::arithmetic::fast_two_sum, g_fts)] #[kani::stub(TwoFloat::new_add, g_new_add)] #[kani::stub(TwoFloat::new_sub, g_new_sub)] fn acc4_sub_gap_p32() { acc4_case(1, 32) }
+    #[kani::solver(kissat)] #[kani::unwind(6)] #[kani::stub(crate::arithmetic::fast_two_sum, g_fts)] #[kani::stub(TwoFloat::new_add, g_new_add)] #[kani::stub(TwoFloat::new_sub, g_new_sub)] fn acc4_sub_gap_p33() { acc4_case(1, 33) }
+    #[kani::solver(kissat)] #[kani::unwind(6)] #[kani::stub(crate::arithmetic::fast_two_sum, g_fts)] #[kani::stub(TwoFloat::new_add, g_new_add)] #[kani::stub(TwoFloat::new_sub, g_new_sub)] fn acc4_sub_gap_p34() { acc4_case(1, 34) }
+    #[kani::solver(kissat)] #[kani::unwind(6)] #[kani::stub(crate::arithmetic::fast_two_sum, g_fts)] #[kani::stub(TwoFloat::new_add, g_new_add)] #[kani::stub(TwoFloat::new_sub, g_new_sub)] fn acc4_sub_gap_p35() { acc4_case(1, 35) }
+    #[kani::solver(kissat)] #[kani::unwind(6)] #[kani::stub(crate::arithmetic::fast_two_sum, g_fts)] #[kani::stub(TwoFloat::new_add, g_new_add)] #[kani::stub(TwoFloat::new_sub, g_new_sub)] fn acc4_sub_gap_p36() { acc4_case(1, 36) }
+    #[kani::solver(kissat)] #[kani::unwind(6)] #[kani::stub(crate::arithmetic::fast_two_sum, g_fts)] #[kani::stub(TwoFloat::new_add, g_new_add)] #[kani::stub(TwoFloat::new_sub, g_new_sub)] fn acc4_sub_gap_p37() { acc4_case(1, 37) }
+    #[kani::solver(kissat)] #[kani::unwind(6)] #[kani::stub(crate::arithmetic::fast_two_sum, g_fts)] #[kani::stub(TwoFloat::new_add, g_new_add)] #[kani::stub(TwoFloat::new_sub, g_new_sub)] fn acc4_sub_gap_p38() { acc4_case(1, 38) }
+    #[kani::solver(kissat)] #[kani::unwind(6)] #[kani::stub(crate::arithmetic::fast_two_sum, g_fts)] #[kani::stub(TwoFloat::new_add, g_new_add)] #[kani::stub(TwoFloat::new_sub, g_new_sub)] fn acc4_sub_gap_p39() { acc4_case(1, 39) }
+    #[kani::solver(kissat)] #[kani::unwind(6)] #[kani::stub(crate::arithmetic::fast_two_sum, g_fts)] #[kani::stub(TwoFloat::new_add, g_new_add)] #[kani::stub(TwoFloat::new_sub, g_new_sub)] fn acc4_sub_gap_p40() { acc4_case(1, 40) }
+    #[kani::solver(kissat)] #[kani::unwind(6)] #[kani::stub(crate::arithmetic::fast_two_sum, g_fts)] #[kani::stub(TwoFloat::new_add, g_new_add)] #[kani::stub(TwoFloat::new_sub, g_new_sub)] fn acc4_sub_gap_p41() { acc4_case(1, 41) }
+    #[kani::solver(kissat)] #[kani::unwind(6)] #[kani::stub(crate::arithmetic::fast_two_sum, g_fts)] #[kani::stub(TwoFloat::new_add, g_new_add)] #[kani::stub(TwoFloat::new_sub, g_new_sub)] fn acc4_sub_gap_p42() { acc4_case(1, 42) }
+    #[kani::solver(kissat)] #[kani::unwind(6)] #[kani::stub(crate::arithmetic::fast_two_sum, g_fts)] #[kani::stub(TwoFloat::new_add, g_new_add)] #[kani::stub(TwoFloat::new_sub, g_new_sub)] fn acc4_sub_gap_p43() { acc4_case(1, 43) }
+    #[kani::solver(kissat)] #[kani::unwind(6)] #[kani::stub(crate::arithmetic::fast_two_sum, g_fts)] #[kani::stub(TwoFloat::new_add, g_new_add)] #[kani::stub(TwoFloat::new_sub, g_new_sub)] fn acc4_sub_gap_p44() { acc4_case(1, 44) }
+    #[kani::solver(kissat)] #[kani::unwind(6)] #[kani::stub(crate::arithmetic::fast_two_sum, g_fts)] #[kani::stub(TwoFloat::new_add, g_new_add)] #[kani::stub(TwoFloat::new_sub, g_new_sub)] fn acc4_sub_gap_p45() { acc4_case(1, 45) }
+    #[kani::solver(kissat)] #[kani::unwind(6)] #[kani::stub(crate::arithmetic::fast_two_sum, g_fts)] #[kani::stub(TwoFloat::new_add, g_new_add)] #[kani::stub(TwoFloat::new_sub, g_new_sub)] fn acc4_sub_gap_p46() { acc4_case(1, 46) }
+    #[kani::solver(kissat)] #[kani::unwind(6)] #[kani::stub(crate::arithmetic::fast_two_sum, g_fts)] #[kani::stub(TwoFloat::new_add, g_new_add)] #[kani::stub(TwoFloat::new_sub, g_new_sub)] fn acc4_sub_gap_p47() { acc4_case(1, 47) }
+    #[kani::solver(kissat)] #[kani::unwind(6)] #[kani::stub(crate::arithmetic::fast_two_sum, g_fts)] #[kani::stub(TwoFloat::new_add, g_new_add)] #[kani::stub(TwoFloat::new_sub, g_new_sub)] fn acc4_sub_gap_p48() { acc4_case(1, 48) }
+    #[kani::solver(kissat)] #[kani::unwind(6)] #[kani::stub(crate::arithmetic::fast_two_sum, g_fts)] #[kani::stub(TwoFloat::new_add, g_new_add)] #[kani::stub(TwoFloat::new_sub, g_new_sub)] fn acc4_sub_gap_p49() { acc4_case(1, 49) }
+    #[kani::solver(kissat)] #[kani::unwind(6)] #[kani::stub(crate::arithmetic::fast_two_sum, g_fts)] #[kani::stub(TwoFloat::new_add, g_new_add)] #[kani::stub(TwoFloat::new_sub, g_new_sub)] fn acc4_sub_gap_p50() { acc4_case(1, 50) }
+    #[kani::solver(kissat)] #[kani::unwind(6)] #[kani::stub(crate::arithmetic::fast_two_sum, g_fts)] #[kani::stub(TwoFloat::new_add, g_new_add)] #[kani::stub(TwoFloat::new_sub, g_new_sub)] fn acc4_sub_gap_p51() { acc4_case(1, 51) }
+    #[kani::solver(kissat)] #[kani::unwind(6)] #[kani::stub(crate::arithmetic::fast_two_sum, g_fts)] #[kani::stub(TwoFloat::new_add, g_new_add)] #[kani::stub(TwoFloat::new_sub, g_new_sub)] fn acc4_sub_gap_p52() { acc4_case(1, 52) }
+    #[kani::solver(kissat)] #[kani::unwind(6)] #[kani::stub(crate::arithmetic::fast_two_sum, g_fts)] #[kani::stub(TwoFloat::new_add, g_new_add)] #[kani::stub(TwoFloat::new_sub, g_new_sub)] fn acc4_sub_gap_p53() { acc4_case(1, 53) }
+    #[kani::solver(kissat)] #[kani::unwind(6)] #[kani::stub(crate::arithmetic::fast_two_sum, g_fts)] #[kani::stub(TwoFloat::new_add, g_new_add)] #[kani::stub(TwoFloat::new_sub, g_new_sub)] fn acc4_sub_gap_p54() { acc4_case(1, 54) }
+    #[kani::solver(kissat)] #[kani::unwind(6)] #[kani::stub(crate::arithmetic::fast_two_sum, g_fts)] #[kani::stub(TwoFloat::new_add, g_new_add)] #[kani::stub(TwoFloat::new_sub, g_new_sub)] fn acc4_sub_gap_p55() { acc4_case(1, 55) }
+    #[kani::solver(kissat)] #[kani::unwind(6)] #[kani::stub(crate::arithmetic::fast_two_sum, g_fts)] #[kani::stub(TwoFloat::new_add, g_new_add)] #[kani::stub(TwoFloat::new_sub, g_new_sub)] fn acc4_sub_gap_p56() { acc4_case(1, 56) }
+    #[kani::solver(kissat)] #[kani::unwind(6)] #[kani::stub(crate::arithmetic::fast_two_sum, g_fts)] #[kani::stub(TwoFloat::new_add, g_new_add)] #[kani::stub(TwoFloat::new_sub, g_new_sub)] fn acc4_sub_gap_p57() { acc4_case(1, 57) }
+    #[kani::solver(kissat)] #[kani::unwind(6)] #[kani::stub(crate::arithmetic::fast_two_sum, g_fts)] #[kani::stub(TwoFloat::new_add, g_new_add)] #[kani::stub(TwoFloat::new_sub, g_new_sub)] fn acc4_sub_gap_p58() { acc4_case(1, 58) }
+    #[kani::solver(kissat)] #[kani::unwind(6)] #[kani::stub(crate::arithmetic::fast_two_sum, g_fts)] #[kani::stub(TwoFloat::new_add, g_new_add)] #[kani::stub(TwoFloat::new_sub, g_new_sub)] fn acc4_sub_gap_p59() { acc4_case(1, 59) }
+    #[kani::solver(kissat)] #[kani::unwind(6)] #[kani::stub(crate::arithmetic::fast_two_sum, g_fts)] #[kani::stub(TwoFloat::new_add, g_new_add)] #[kani::stub(TwoFloat::new_sub, g_new_sub)] fn acc4_sub_gap_p60() { acc4_case(1, 60) }
+    #[kani::solver(kissat)] #[kani::unwind(6)] #[kani::stub(crate::arithmetic::fast_two_sum, g_fts)] #[kani::stub(TwoFloat::new_add, g_new_add)] #[kani::stub(TwoFloat::new_sub, g_new_sub)] fn acc4_sub_far_p() { acc4_case(1, 1000) }
+    #[kani::solver(kissat)] #[kani::unwind(6)] #[kani::stub(crate::arithmetic::fast_two_sum, g_fts)] #[kani::stub(TwoFloat::new_add, g_new_add)] #[kani::stub(TwoFloat::new_sub, g_new_sub)] fn acc4_sub_far_m() { acc4_case(1, -1000) }
+    #[kani::solver(kissat)] #[kani::unwind(6)] #[kani::stub(crate::arithmetic::fast_two_sum, g_fts)] #[kani::stub(TwoFloat::new_add, g_new_add)] #[kani::stub(TwoFloat::new_sub, g_new_sub)] fn acc4_rsub_gap_m60() { acc4_case(2, -60) }
+    #[kani::solver(kissat)] #[kani::unwind(6)] #[kani::stub(crate::arithmetic::fast_two_sum, g_fts)] #[kani::stub(TwoFloat::new_add, g_new_add)] #[kani::stub(TwoFloat::new_sub, g_new_sub)] fn acc4_rsub_gap_m59() { acc4_case(2, -59) }
+    #[kani::solver(kissat)] #[kani::unwind(6)] #[kani::stub(crate::arithmetic::fast_two_sum, g_fts)] #[kani::stub(TwoFloat::new_add, g_new_add)] #[kani::stub(TwoFloat::new_sub, g_new_sub)] fn acc4_rsub_gap_m58() { acc4_case(2, -58) }
+    #[kani::solver(kissat)] #[kani::unwind(6)] #[kani::stub(crate::arithmetic::fast_two_sum, g_fts)] #[kani::stub(TwoFloat::new_add, g_new_add)] #[kani::stub(TwoFloat::new_sub, g_new_sub)] fn acc4_rsub_gap_m57() { acc4_case(2, -57) }
+    #[kani::solver(kissat)] #[kani::unwind(6)] #[kani::stub(crate::arithmetic::fast_two_sum, g_fts)] #[kani::stub(TwoFloat::new_add, g_new_add)] #[kani::stub(TwoFloat::new_sub, g_new_sub)] fn acc4_rsub_gap_m56() { acc4_case(2, -56) }
+    #[kani::solver(kissat)] #[kani::unwind(6)] #[kani::stub(crate::arithmetic::fast_two_sum, g_fts)] #[kani::stub(TwoFloat::new_add, g_new_add)] #[kani::stub(TwoFloat::new_sub, g_new_sub)] fn acc4_rsub_gap_m55() { acc4_case(2, -55) }
+    #[kani::solver(kissat)] #[kani::unwind(6)] #[kani::stub(crate::arithmetic::fast_two_sum, g_fts)] #[kani::stub(TwoFloat::new_add, g_new_add)] #[kani::stub(TwoFloat::new_sub, g_new_sub)] fn acc4_rsub_gap_m54() { acc4_case(2, -54) }
+    #[kani::solver(kissat)] #[kani::unwind(6)] #[kani::stub(crate::arithmetic::fast_two_sum, g_fts)] #[kani::stub(TwoFloat::new_add, g_new_add)] #[kani::stub(TwoFloat::new_sub, g_new_sub)] fn acc4_rsub_gap_m53() { acc4_case(2, -53) }
+    #[kani::solver(kissat)] #[kani::unwind(6)] #[kani::stub(crate::arithmetic::fast_two_sum, g_fts)] #[kani::stub(TwoFloat::new_add, g_new_add)] #[kani::stub(TwoFloat::new_sub, g_new_sub)] fn acc4_rsub_gap_m52() { acc4_case(2, -52) }
+    #[kani::solver(kissat)] #[kani::unwind(6)] #[kani::stub(crate::arithmetic::fast_two_sum, g_fts)] #[kani::stub(TwoFloat::new_add, g_new_add)] #[kani::stub(TwoFloat::new_sub, g_new_sub)] fn acc4_rsub_gap_m51() { acc4_case(2, -51) }
+    #[kani::solver(kissat)] #[kani::unwind(6)] #[kani::stub(crate::arithmetic::fast_two_sum, g_fts)] #[kani::stub(TwoFloat::new_add, g_new_add)] #[kani::stub(TwoFloat::new_sub, g_new_sub)] fn acc4_rsub_gap_m50() { acc4_case(2, -50) }
+    #[kani::solver(kissat)] #[kani::unwind(6)] #[kani::stub(crate::arithmetic::fast_two_sum, g_fts)] #[kani::stub(TwoFloat::new_add, g_new_add)] #[kani::stub(TwoFloat::new_sub, g_new_sub)] fn acc4_rsub_gap_m49() { acc4_case(2, -49) }
+    #[kani::solver(kissat)] #[kani::unwind(6)] #[kani::stub(crate::arithmetic::fast_two_sum, g_fts)] #[kani::stub(TwoFloat::new_add, g_new_add)] #[kani::stub(TwoFloat::new_sub, g_new_sub)] fn acc4_rsub_gap_m48() { acc4_case(2, -48) }
+    #[kani::solver(kissat)] #[kani::unwind(6)] #[kani::stub(crate::arithmetic::fast_two_sum, g_fts)] #[kani::stub(TwoFloat::new_add, g_new_add)] #[kani::stub(TwoFloat::new_sub, g_new_sub)] fn acc4_rsub_gap_m47() { acc4_case(2, -47) }
+    #[kani::solver(kissat)] #[kani::unwind(6)] #[kani::stub(crate::arithmetic::fast_two_sum, g_fts)] #[kani::stub(TwoFloat::new_add, g_new_add)] #[kani::stub(TwoFloat::new_sub, g_new_sub)] fn acc4_rsub_gap_m46() { acc4_case(2, -46) }
+    #[kani::solver(kissat)] #[kani::unwind(6)] #[kani::stub(crate::arithmetic::fast_two_sum, g_fts)] #[kani::stub(TwoFloat::new_add, g_new_add)] #[kani::stub(TwoFloat::new_sub, g_new_sub)] fn acc4_rsub_gap_m45() { acc4_case(2, -45) }
+    #[kani::solver(kissat)] #[kani::unwind(6)] #[kani::stub(crate::arithmetic::fast_two_sum, g_fts)] #[kani::stub(TwoFloat::new_add, g_new_add)] #[kani::stub(TwoFloat::new_sub, g_new_sub)] fn acc4_rsub_gap_m44() { acc4_case(2, -44) }
+    #[kani::solver(kissat)] #[kani::unwind(6)] #[kani::stub(crate::arithmetic::fast_two_sum, g_fts)] #[kani::stub(TwoFloat::new_add, g_new_add)] #[kani::stub(TwoFloat::new_sub, g_new_sub)] fn acc4_rsub_gap_m43() { acc4_case(2, -43) }
+    #[kani::solver(kissat)] #[kani::unwind(6)] #[kani::stub(crate::arithmetic::fast_two_sum, g_fts)] #[kani::stub(TwoFloat::new_add, g_new_add)] #[kani::stub(TwoFloat::new_sub, g_new_sub)] fn acc4_rsub_gap_m42() { acc4_case(2, -42) }
+    #[kani::solver(kissat)] #[kani::unwind(6)] #[kani::stub(crate::arithmetic::fast_two_sum, g_fts)] #[kani::stub(TwoFloat::new_add, g_new_add)] #[kani::stub(TwoFloat::new_sub, g_new_sub)] fn acc4_rsub_gap_m41() { acc4_case(2, -41) }
+    #[kani::solver(kissat)] #[kani::unwind(6)] #[kani::stub(crate::arithmetic::fast_two_sum, g_fts)] #[kani::stub(TwoFloat::new_add, g_new_add)] #[kani::stub(TwoFloat::new_sub, g_new_sub)] fn acc4_rsub_gap_m40() { acc4_case(2, -40) }
+    #[kani::solver(kissat)] #[kani::unwind(6)] #[kani::stub(crate::arithmetic::fast_two_sum, g_fts)] #[kani::stub(TwoFloat::new_add, g_new_add)] #[kani::stub(TwoFloat::new_sub, g_new_sub)] fn acc4_rsub_gap_m39() { acc4_case(2, -39) }
+    #[kani::solver(kissat)] #[kani::unwind(6)] #[kani::stub(crate::arithmetic::fast_two_sum, g_fts)] #[kani::stub(TwoFloat::new_add, g_new_add)] #[kani::stub(TwoFloat::new_sub, g_new_sub)] fn acc4_rsub_gap_m38() { acc4_case(2, -38) }
+    #[kani::solver(kissat)] #[kani::unwind(6)] #[kani::stub(crate::arithmetic::fast_two_sum, g_fts)] #[kani::stub(TwoFloat::new_add, g_new_add)] #[kani::stub(TwoFloat::new_sub, g_new_sub)] fn acc4_rsub_gap_m37() { acc4_case(2, -37) }
+    #[kani::solver(kissat)] #[kani::unwind(6)] #[kani::stub(crate::arithmetic::fast_two_sum, g_fts)] #[kani::stub(TwoFloat::new_add, g_new_add)] #[kani::stub(TwoFloat::new_sub, g_new_sub)] fn acc4_rsub_gap_m36() { acc4_case(2, -36) }
+    #[kani::solver(kissat)] #[kani::unwind(6)] #[kani::stub(crate::arithmetic::fast_two_sum, g_fts)] #[kani::stub(TwoFloat::new_add, g_new_add)] #[kani::stub(TwoFloat::new_sub, g_new_sub)] fn acc4_rsub_gap_m35() { acc4_case(2, -35) }
+    #[kani::solver(kissat)] #[kani::unwind(6)] #[kani::stub(crate::arithmetic::fast_two_sum, g_fts)] #[kani::stub(TwoFloat::new_add, g_new_add)] #[kani::stub(TwoFloat::new_sub, g_new_sub)] fn acc4_rsub_gap_m34() { acc4_case(2, -34) }
+    #[kani::solver(kissat)] #[kani::unwind(6)] #[kani::stub(crate::arithmetic::fast_two_sum, g_fts)] #[kani::stub(TwoFloat::new_add, g_new_add)] #[kani::stub(TwoFloat::new_sub, g_new_sub)] fn acc4_rsub_gap_m33() { acc4_case(2, -33) }
+    #[kani::solver(kissat)] #[kani::unwind(6)] #[kani::stub(crate::arithmetic::fast_two_sum, g_fts)] #[kani::stub(TwoFloat::new_add, g_new_add)] #[kani::stub(TwoFloat::new_sub, g_new_sub)] fn acc4_rsub_gap_m32() { acc4_case(2, -32) }
+    #[kani::solver(kissat)] #[kani::unwind(6)] #[kani::stub(crate::arithmetic::fast_two_sum, g_fts)] #[kani::stub(TwoFloat::new_add, g_new_add)] #[kani::stub(TwoFloat::new_sub, g_new_sub)] fn acc4_rsub_gap_m31() { acc4_case(2, -31) }
+    #[kani::solver(kissat)] #[kani::unwind(6)] #[kani::stub(crate::arithmetic::fast_two_sum, g_fts)] #[kani::stub(TwoFloat::new_add, g_new_add)] #[kani::stub(TwoFloat::new_sub, g_new_sub)] fn acc4_rsub_gap_m30() { acc4_case(2, -30) }
+    #[kani::solver(kissat)] #[kani::unwind(6)] #[kani::stub(crate::arithmetic::fast_two_sum, g_fts)] #[kani::stub(TwoFloat::new_add, g_new_add)] #[kani::stub(TwoFloat::new_sub, g_new_sub)] fn acc4_rsub_gap_m29() { acc4_case(2, -29) }
+    #[kani::solver(kissat)] #[kani::unwind(6)] #[kani::stub(crate::arithmetic::fast_two_sum, g_fts)] #[kani::stub(TwoFloat::new_add, g_new_add)] #[kani::stub(TwoFloat::new_sub, g_new_sub)] fn acc4_rsub_gap_m28() { acc4_case(2, -28) }
+    #[kani::solver(kissat)] #[kani::unwind(6)] #[kani::stub(crate::arithmetic::fast_two_sum, g_fts)] #[kani::stub(TwoFloat::new_add, g_new_add)] #[kani::stub(TwoFloat::new_sub, g_new_sub)] fn acc4_rsub_gap_m27() { acc4_case(2, -27) }
+    #[kani::solver(kissat)] #[kani::unwind(6)] #[kani::stub(crate::arithmetic::fast_two_sum, g_fts)] #[kani::stub(TwoFloat::new_add, g_new_add)] #[kani::stub(TwoFloat::new_sub, g_new_sub)] fn acc4_rsub_gap_m26() { acc4_case(2, -26) }
+    #[kani::solver(kissat)] #[kani::unwind(6)] #[kani::stub(crate::arithmetic::fast_two_sum, g_fts)] #[kani::stub(TwoFloat::new_add, g_new_add)] #[kani::stub(TwoFloat::new_sub, g_new_sub)] fn acc4_rsub_gap_m25() { acc4_case(2, -25) }
+    #[kani::solver(kissat)] #[kani::unwind(6)] #[kani::stub(crate::arithmetic::fast_two_sum, g_fts)] #[kani::stub(TwoFloat::new_add, g_new_add)] #[kani::stub(TwoFloat::new_sub, g_new_sub)] fn acc4_rsub_gap_m24() { acc4_case(2, -24) }
+    #[kani::solver(kissat)] #[kani::unwind(6)] #[kani::stub(crate::arithmetic::fast_two_sum, g_fts)] #[kani::stub(TwoFloat::new_add, g_new_add)] #[kani::stub(TwoFloat::new_sub, g_new_sub)] fn acc4_rsub_gap_m23() { acc4_case(2, -23) }
+    #[kani::solver(kissat)] #[kani::unwind(6)] #[kani::stub(crate::arithmetic::fast_two_sum, g_fts)] #[kani::stub(TwoFloat::new_add, g_new_add)] #[kani::stub(TwoFloat::new_sub, g_new_sub)] fn acc4_rsub_gap_m22() { acc4_case(2, -22) }
+    #[kani::solver(kissat)] #[kani::unwind(6)] #[kani::stub(crate::arithmetic::fast_two_sum, g_fts)] #[kani::stub(TwoFloat::new_add, g_new_add)] #[kani::stub(TwoFloat::new_sub, g_new_sub)] fn acc4_rsub_gap_m21() { acc4_case(2, -21) }
+    #[kani::solver(kissat)] #[kani::unwind(6)] #[kani::stub(crate::arithmetic::fast_two_sum, g_fts)] #[kani::stub(TwoFloat::new_add, g_new_add)] #[kani::stub(TwoFloat::new_sub, g_new_sub)] fn acc4_rsub_gap_m20() { acc4_case(2, -20) }
+    #[kani::solver(kissat)] #[kani::unwind(6)] #[kani::stub(crate::arithmetic::fast_two_sum, g_fts)] #[kani::stub(TwoFloat::new_add, g_new_add)] #[kani::stub(TwoFloat::new_sub, g_new_sub)] fn acc4_rsub_gap_m19() { acc4_case(2, -19) }
+    #[kani::solver(kissat)] #[kani::unwind(6)] #[kani::stub(crate::arithmetic::fast_two_sum, g_fts)] #[kani::stub(TwoFloat::new_add, g_new_add)] #[kani::stub(TwoFloat::new_sub, g_new_sub)] fn acc4_rsub_gap_m18() { acc4_case(2, -18) }
+    #[kani::solver(kissat)] #[kani::unwind(6)] #[kani::stub(crate::arithmetic::fast_two_sum, g_fts)] #[kani::stub(TwoFloat::new_add, g_new_add)] #[kani::stub(TwoFloat::new_sub, g_new_sub)] fn acc4_rsub_gap_m17() { acc4_case(2, -17) }
+    #[kani::solver(kissat)] #[kani::unwind(6)] #[kani::stub(crate::arithmetic::fast_two_sum, g_fts)] #[kani::stub(TwoFloat::new_add, g_new_add)] #[kani::stub(TwoFloat::new_sub, g_new_sub)] fn acc4_rsub_gap_m16() { acc4_case(2, -16) }
+    #[kani::solver(kissat)] #[kani::unwind(6)] #[kani::stub(crate::arithmetic::fast_two_sum, g_fts)] #[kani::stub(TwoFloat::new_add, g_new_add)] #[kani::stub(TwoFloat::new_sub, g_new_sub)] fn acc4_rsub_gap_m15() { acc4_case(2, -15) }
+    #[kani::solver(kissat)] #[kani::unwind(6)] #[kani::stub(crate::arithmetic::fast_two_sum, g_fts)] #[kani::stub(TwoFloat::new_add, g_new_add)] #[kani::stub(TwoFloat::new_sub, g_new_sub)] fn acc4_rsub_gap_m14() { acc4_case(2, -14) }
+    #[kani::solver(kissat)] #[kani::unwind(6)] #[kani::stub(crate::arithmetic::fast_two_sum, g_fts)] #[kani::stub(TwoFloat::new_add, g_new_add)] #[kani::stub(TwoFloat::new_sub, g_new_sub)] fn acc4_rsub_gap_m13() { acc4_case(2, -13) }
+    #[kani::solver(kissat)] #[kani::unwind(6)] #[kani::stub(crate::arithmetic::fast_two_sum, g_fts)] #[kani::stub(TwoFloat::new_add, g_new_add)] #[kani::stub(TwoFloat::new_sub, g_new_sub)] fn acc4_rsub_gap_m12() { acc4_case(2, -12) }
+    #[kani::solver(kissat)] #[kani::unwind(6)] #[kani::stub(crate::arithmetic::fast_two_sum, g_fts)] #[kani::stub(TwoFloat::new_add, g_new_add)] #[kani::stub(TwoFloat::new_sub, g_new_sub)] fn acc4_rsub_gap_m11() { acc4_case(2, -11) }
+    #[kani::solver(kissat)] #[kani::unwind(6)] #[kani::stub(crate::arithmetic::fast_two_sum, g_fts)] #[kani::stub(TwoFloat::new_add, g_new_add)] #[kani::stub(TwoFloat::new_sub, g_new_sub)] fn acc4_rsub_gap_m10() { acc4_case(2, -10) }
+    #[kani::solver(kissat)] #[kani::unwind(6)] #[kani::stub(crate::arithmetic::fast_two_sum, g_fts)] #[kani::stub(TwoFloat::new_add, g_new_add)] #[kani::stub(TwoFloat::new_sub, g_new_sub)] fn acc4_rsub_gap_m9() { acc4_case(2, -9) }
+    #[kani::solver(kissat)] #[kani::unwind(6)] #[kani::stub(crate::arithmetic::fast_two_sum, g_fts)] #[kani::stub(TwoFloat::new_add, g_new_add)] #[kani::stub(TwoFloat::new_sub, g_new_sub)] fn acc4_rsub_gap_m8() { acc4_case(2, -8) }
+    #[kani::solver(kissat)] #[kani::unwind(6)] #[kani::stub(crate::arithmetic::fast_two_sum, g_fts)] #[kani::stub(TwoFloat::new_add, g_new_add)] #[kani::stub(TwoFloat::new_sub, g_new_sub)] fn acc4_rsub_gap_m7() { acc4_case(2, -7) }
+    #[kani::solver(kissat)] #[kani::unwind(6)] #[kani::stub(crate::arithmetic::fast_two_sum, g_fts)] #[kani::stub(TwoFloat::new_add, g_new_add)] #[kani::stub(TwoFloat::new_sub, g_new_sub)] fn acc4_rsub_gap_m6() { acc4_case(2, -6) }
+    #[kani::solver(kissat)] #[kani::unwind(6)] #[kani::stub(crate::arithmetic::fast_two_sum, g_fts)] #[kani::stub(TwoFloat::new_add, g_new_add)] #[kani::stub(TwoFloat::new_sub, g_new_sub)] fn acc4_rsub_gap_m5() { acc4_case(2, -5) }
+    #[kani::solver(kissat)] #[kani::unwind(6)] #[kani::stub(crate::arithmetic::fast_two_sum, g_fts)] #[kani::stub(TwoFloat::new_add, g_new_add)] #[kani::stub(TwoFloat::new_sub, g_new_sub)] fn acc4_rsub_gap_m4() { acc4_case(2, -4) }
+    #[kani::solver(kissat)] #[kani::unwind(6)] #[kani::stub(crate::arithmetic::fast_two_sum, g_fts)] #[kani::stub(TwoFloat::new_add, g_new_add)] #[kani::stub(TwoFloat::new_sub, g_new_sub)] fn acc4_rsub_gap_m3() { acc4_case(2, -3) }
+    #[kani::solver(kissat)] #[kani::unwind(6)] #[kani::stub(crate::arithmetic::fast_two_sum, g_fts)] #[kani::stub(TwoFloat::new_add, g_new_add)] #[kani::stub(TwoFloat::new_sub, g_new_sub)] fn acc4_rsub_gap_m2() { acc4_case(2, -2) }
+    #[kani::solver(kissat)] #[kani::unwind(6)] #[kani::stub(crate::arithmetic::fast_two_sum, g_fts)] #[kani::stub(TwoFloat::new_add, g_new_add)] #[kani::stub(TwoFloat::new_sub, g_new_sub)] fn acc4_rsub_gap_m1() { acc4_case(2, -1) }
+    #[kani::solver(kissat)] #[kani::unwind(6)] #[kani::stub(crate::arithmetic::fast_two_sum, g_fts)] #[kani::stub(TwoFloat::new_add, g_new_add)] #[kani::stub(TwoFloat::new_sub, g_new_sub)] fn acc4_rsub_gap_p0() { acc4_case(2, 0) }
+    #[kani::solver(kissat)] #[kani::unwind(6)] #[kani::stub(crate::arithmetic::fast_two_sum, g_fts)] #[kani::stub(TwoFloat::new_add, g_new_add)] #[kani::stub(TwoFloat::new_sub, g_new_sub)] fn acc4_rsub_gap_p1() { acc4_case(2, 1) }
+    #[kani::solver(kissat)] #[kani::unwind(6)] #[kani::stub(crate::arithmetic::fast_two_sum, g_fts)] #[kani::stub(TwoFloat::new_add, g_new_add)] #[kani::stub(TwoFloat::new_sub, g_new_sub)] fn acc4_rsub_gap_p2() { acc4_case(2, 2) }
+    #[kani::solver(kissat)] #[kani::unwind(6)] #[kani::stub(crate::arithmetic::fast_two_sum, g_fts)] #[kani::stub(TwoFloat::new_add, g_new_add)] #[kani::stub(TwoFloat::new_sub, g_new_sub)] fn acc4_rsub_gap_p3() { acc4_case(2, 3) }
+    #[kani::solver(kissat)] #[kani::unwind(6)] #[kani::stub(crate::arithmetic::fast_two_sum, g_fts)] #[kani::stub(TwoFloat::new_add, g_new_add)] #[kani::stub(TwoFloat::new_sub, g_new_sub)] fn acc4_rsub_gap_p4() { acc4_case(2, 4) }
+    #[kani::solver(kissat)] #[kani::unwind(6)] #[kani::stub(crate::arithmetic::fast_two_sum, g_fts)] #[kani::stub(TwoFloat::new_add, g_new_add)] #[kani::stub(TwoFloat::new_sub, g_new_sub)] fn acc4_rsub_gap_p5() { acc4_case(2, 5) }
+    #[kani::solver(kissat)] #[kani::unwind(6)] #[kani::stub(crate::arithmetic::fast_two_sum, g_fts)] #[kani::stub(TwoFloat::new_add, g_new_add)] #[kani::stub(TwoFloat::new_sub, g_new_sub)] fn acc4_rsub_gap_p6() { acc4_case(2, 6) }
+    #[kani::solver(kissat)] #[kani::unwind(6)] #[kani::stub(crate::arithmetic::fast_two_sum, g_fts)] #[kani::stub(TwoFloat::new_add, g_new_add)] #[kani::stub(TwoFloat::new_sub, g_new_sub)] fn acc4_rsub_gap_p7() { acc4_case(2, 7) }
+    #[kani::solver(kissat)] #[kani::unwind(6)] #[kani::stub(crate::arithmetic::fast_two_sum, g_fts)] #[kani::stub(TwoFloat::new_add, g_new_add)] #[kani::stub(TwoFloat::new_sub, g_new_sub)] fn acc4_rsub_gap_p8() { acc4_case(2, 8) }
+    #[kani::solver(kissat)] #[kani::unwind(6)] #[kani::stub(crate::arithmetic::fast_two_sum, g_fts)] #[kani::stub(TwoFloat::new_add, g_new_add)] #[kani::stub(TwoFloat::new_sub, g_new_sub)] fn acc4_rsub_gap_p9() { acc4_case(2, 9) }
+    #[kani::solver(kissat)] #[kani::unwind(6)] #[kani::stub(crate::arithmetic::fast_two_sum, g_fts)] #[kani::stub(TwoFloat::new_add, g_new_add)] #[kani::stub(TwoFloat::new_sub, g_new_sub)] fn acc4_rsub_gap_p10() { acc4_case(2, 10) }
+    #[kani::solver(kissat)] #[kani::unwind(6)] #[kani::stub(crate::arithmetic::fast_two_sum, g_fts)] #[kani::stub(TwoFloat::new_add, g_new_add)] #[kani::stub(TwoFloat::new_sub, g_new_sub)] fn acc4_rsub_gap_p11() { acc4_case(2, 11) }
+    #[kani::solver(kissat)] #[kani::unwind(6)] #[kani::stub(crate::arithmetic::fast_two_sum, g_fts)] #[kani::stub(TwoFloat::new_add, g_new_add)] #[kani::stub(TwoFloat::new_sub, g_new_sub)] fn acc4_rsub_gap_p12() { acc4_case(2, 12) }
+    #[kani::solver(kissat)] #[kani::unwind(6)] #[kani::stub(crate::arithmetic::fast_two_sum, g_fts)] #[kani::stub(TwoFloat::new_add, g_new_add)] #[kani::stub(TwoFloat::new_sub, g_new_sub)] fn acc4_rsub_gap_p13() { acc4_case(2, 13) }
+    #[kani::solver(kissat)] #[kani::unwind(6)] #[kani::stub(crate::arithmetic::fast_two_sum, g_fts)] #[kani::stub(TwoFloat::new_add, g_new_add)] #[kani::stub(TwoFloat::new_sub, g_new_sub)] fn acc4_rsub_gap_p14() { acc4_case(2, 14) }
+    #[kani::solver(kissat)] #[kani::unwind(6)] #[kani::stub(crate::arithmetic::fast_two_sum, g_fts)] #[kani::stub(TwoFloat::new_add, g_new_add)] #[kani::stub(TwoFloat::new_sub, g_new_sub)] fn acc4_rsub_gap_p15() { acc4_case(2, 15) }
+    #[kani::solver(kissat)] #[kani::unwind(6)] #[kani::stub(crate::arithmetic::fast_two_sum, g_fts)] #[kani::stub(TwoFloat::new_add, g_new_add)] #[kani::stub(TwoFloat::new_sub, g_new_sub)] fn acc4_rsub_gap_p16() { acc4_case(2, 16) }
+    #[kani::solver(kissat)] #[kani::unwind(6)] #[kani::stub(crate::arithmetic::fast_two_sum, g_fts)] #[kani::stub(TwoFloat::new_add, g_new_add)] #[kani::stub(TwoFloat::new_sub, g_new_sub)] fn acc4_rsub_gap_p17() { acc4_case(2, 17) }
+    #[kani::solver(kissat)] #[kani::unwind(6)] #[kani::stub(crate::arithmetic::fast_two_sum, g_fts)] #[kani::stub(TwoFloat::new_add, g_new_add)] #[kani::stub(TwoFloat::new_sub, g_new_sub)] fn acc4_rsub_gap_p18() { acc4_case(2, 18) }
+    #[kani::solver(kissat)] #[kani::unwind(6)] #[kani::stub(crate::arithmetic::fast_two_sum, g_fts)] #[kani::stub(TwoFloat::new_add, g_new_add)] #[kani::stub(TwoFloat::new_sub, g_new_sub)] fn acc4_rsub_gap_p19() { acc4_case(2, 19) }
+    #[kani::solver(kissat)] #[kani::unwind(6)] #[kani::stub(crate::arithmetic::fast_two_sum, g_fts)] #[kani::stub(TwoFloat::new_add, g_new_add)] #[kani::stub(TwoFloat::new_sub, g_new_sub)] fn acc4_rsub_gap_p20() { acc4_case(2, 20) }
+    #[kani::solver(kissat)] #[kani::unwind(6)] #[kani::stub(crate::arithmetic::fast_two_sum, g_fts)] #[kani::stub(TwoFloat::new_add, g_new_add)] #[kani::stub(TwoFloat::new_sub, g_new_sub)] fn acc4_rsub_gap_p21() { acc4_case(2, 21) }
+    #[kani::solver(kissat)] #[kani::unwind(6)] #[kani::stub(crate::arithmetic::fast_two_sum, g_fts)] #[kani::stub(TwoFloat::new_add, g_new_add)] #[kani::stub(TwoFloat::new_sub, g_new_sub)] fn acc4_rsub_gap_p22() { acc4_case(2, 22) }
+    #[kani::solver(kissat)] #[kani::unwind(6)] #[kani::stub(crate::arithmetic::fast_two_sum, g_fts)] #[kani::stub(TwoFloat::new_add, g_new_add)] #[kani::stub(TwoFloat::new_sub, g_new_sub)] fn acc4_rsub_gap_p23() { acc4_case(2, 23) }
+    #[kani::solver(kissat)] #[kani::unwind(6)] #[kani::stub(crate::arithmetic::fast_two_sum, g_fts)] #[kani::stub(TwoFloat::new_add, g_new_add)] #[kani::stub(TwoFloat::new_sub, g_new_sub)] fn acc4_rsub_gap_p24() { acc4_case(2, 24) }
+    #[kani::solver(kissat)] #[kani::unwind(6)] #[kani::stub(crate::arithmetic::fast_two_sum, g_fts)] #[kani::stub(TwoFloat::new_add, g_new_add)] #[kani::stub(TwoFloat::new_sub, g_new_sub)] fn acc4_rsub_gap_p25() { acc4_case(2, 25) }
+    #[kani::solver(kissat)] #[kani::unwind(6)] #[kani::stub(crate::arithmetic::fast_two_sum, g_fts)] #[kani::stub(TwoFloat::new_add, g_new_add)] #[kani::stub(TwoFloat::new_sub, g_new_sub)] fn acc4_rsub_gap_p26() { acc4_case(2, 26) }
+    #[kani::solver(kissat)] #[kani::unwind(6)] #[kani::stub(crate::arithmetic::fast_two_sum, g_fts)] #[kani::stub(TwoFloat::new_add, g_new_add)] #[kani::stub(TwoFloat::new_sub, g_new_sub)] fn acc4_rsub_gap_p27() { acc4_case(2, 27) }
+    #[kani::solver(kissat)] #[kani::unwind(6)] #[kani::stub(crate::arithmetic::fast_two_sum, g_fts)] #[kani::stub(TwoFloat::new_add, g_new_add)] #[kani::stub(TwoFloat::new_sub, g_new_sub)] fn acc4_rsub_gap_p28() { acc4_case(2, 28) }
+    #[kani::solver(kissat)] #[kani::unwind(6)] #[kani::stub(crate::arithmetic::fast_two_sum, g_fts)] #[kani::stub(TwoFloat::new_add, g_new_add)] #[kani::stub(TwoFloat::new_sub, g_new_sub)] fn acc4_rsub_gap_p29() { acc4_case(2, 29) }
+    #[kani::solver(kissat)] #[kani::unwind(6)] #[kani::stub(crate::arithmetic::fast_two_sum, g_fts)] #[kani::stub(TwoFloat::new_add, g_new_add)] #[kani::stub(TwoFloat::new_sub, g_new_sub)] fn acc4_rsub_gap_p30() { acc4_case(2, 30) }
+    #[kani::solver(kissat)] #[kani::unwind(6)] #[kani::stub(crate::arithmetic::fast_two_sum, g_fts)] #[kani::stub(TwoFloat::new_add, g_new_add)] #[kani::stub(TwoFloat::new_sub, g_new_sub)] fn acc4_rsub_gap_p31() { acc4_case(2, 31) }
+    #[kani::solver(kissat)] #[kani::unwind(6)] #[kani::stub(crate::arithmetic::fast_two_sum, g_fts)] #[kani::stub(TwoFloat::new_add, g_new_add)] #[kani::stub(TwoFloat::new_sub, g_new_sub)] fn acc4_rsub_gap_p32() { acc4_case(2, 32) }
+    #[kani::solver(kissat)] #[kani::unwind(6)] #[kani::stub(crate::arithmetic::fast_two_sum, g_fts)] #[kani::stub(TwoFloat::new_add, g_new_add)] #[kani::stub(TwoFloat::new_sub, g_new_sub)] fn acc4_rsub_gap_p33() { acc4_case(2, 33) }
+    #[kani::solver(kissat)] #[kani::unwind(6)] #[kani::stub(crate::arithmetic::fast_two_sum, g_fts)] #[kani::stub(TwoFloat::new_add, g_new_add)] #[kani::stub(TwoFloat::new_sub, g_new_sub)] fn acc4_rsub_gap_p34() { acc4_case(2, 34) }
+    #[kani::solver(kissat)] #[kani::unwind(6)] #[kani::stub(crate::arithmetic::fast_two_sum, g_fts)] #[kani::stub(TwoFloat::new_add, g_new_add)] #[kani::stub(TwoFloat::new_sub, g_new_sub)] fn acc4_rsub_gap_p35() { acc4_case(2, 35) }
+    #[kani::solver(kissat)] #[kani::unwind(6)] #[kani::stub(crate::arithmetic::fast_two_sum, g_fts)] #[kani::stub(TwoFloat::new_add, g_new_add)] #[kani::stub(TwoFloat::new_sub, g_new_sub)] fn acc4_rsub_gap_p36() { acc4_case(2, 36) }
+    #[kani::solver(kissat)] #[kani::unwind(6)] #[kani::stub(crate::arithmetic::fast_two_sum, g_fts)] #[kani::stub(TwoFloat::new_add, g_new_add)] #[kani::stub(TwoFloat::new_sub, g_new_sub)] fn acc4_rsub_gap_p37() { acc4_case(2, 37) }
+    #[kani::solver(kissat)] #[kani::unwind(6)] #[kani::stub(crate::arithmetic::fast_two_sum, g_fts)] #[kani::stub(TwoFloat::new_add, g_new_add)] #[kani::stub(TwoFloat::new_sub, g_new_sub)] fn acc4_rsub_gap_p38() { acc4_case(2, 38) }
+    #[kani::solver(kissat)] #[kani::unwind(6)] #[kani::stub(crate::arithmetic::fast_two_sum, g_fts)] #[kani::stub(TwoFloat::new_add, g_new_add)] #[kani::stub(TwoFloat::new_sub, g_new_sub)] fn acc4_rsub_gap_p39() { acc4_case(2, 39) }
+    #[kani::solver(kissat)] #[kani::unwind(6)] #[kani::stub(crate::arithmetic::fast_two_sum, g_fts)] #[kani::stub(TwoFloat::new_add, g_new_add)] #[kani::stub(TwoFloat::new_sub, g_new_sub)] fn acc4_rsub_gap_p40() { acc4_case(2, 40) }
+    #[kani::solver(kissat)] #[kani::unwind(6)] #[kani::stub(crate::arithmetic::fast_two_sum, g_fts)] #[kani::stub(TwoFloat::new_add, g_new_add)] #[kani::stub(TwoFloat::new_sub, g_new_sub)] fn acc4_rsub_gap_p41() { acc4_case(2, 41) }
+    #[kani::solver(kissat)] #[kani::unwind(6)] #[kani::stub(crate::arithmetic::fast_two_sum, g_fts)] #[kani::stub(TwoFloat::new_add, g_new_add)] #[kani::stub(TwoFloat::new_sub, g_new_sub)] fn acc4_rsub_gap_p42() { acc4_case(2, 42) }
+    #[kani::solver(kissat)] #[kani::unwind(6)] #[kani::stub(crate::arithmetic::fast_two_sum, g_fts)] #[kani::stub(TwoFloat::new_add, g_new_add)] #[kani::stub(TwoFloat::new_sub, g_new_sub)] fn acc4_rsub_gap_p43() { acc4_case(2, 43) }
+    #[kani::solver(kissat)] #[kani::unwind(6)] #[kani::stub(crate::arithmetic::fast_two_sum, g_fts)] #[kani::stub(TwoFloat::new_add, g_new_add)] #[kani::stub(TwoFloat::new_sub, g_new_sub)] fn acc4_rsub_gap_p44() { acc4_case(2, 44) }
+    #[kani::solver(kissat)] #[kani::unwind(6)] #[kani::stub(crate::arithmetic::fast_two_sum, g_fts)] #[kani::stub(TwoFloat::new_add, g_new_add)] #[kani::stub(TwoFloat::new_sub, g_new_sub)] fn acc4_rsub_gap_p45() { acc4_case(2, 45) }
+    #[kani::solver(kissat)] #[kani::unwind(6)] #[kani::stub(crate::arithmetic::fast_two_sum, g_fts)] #[kani::stub(TwoFloat::new_add, g_new_add)] #[kani::stub(TwoFloat::new_sub, g_new_sub)] fn acc4_rsub_gap_p46() { acc4_case(2, 46) }
+    #[kani::solver(kissat)] #[kani::unwind(6)] #[kani::stub(crate::arithmetic::fast_two_sum, g_fts)] #[kani::stub(TwoFloat::new_add, g_new_add)] #[kani::stub(TwoFloat::new_sub, g_new_sub)] fn acc4_rsub_gap_p47() { acc4_case(2, 47) }
+    #[kani::solver(kissat)] #[kani::unwind(6)] #[kani::stub(crate::arithmetic::fast_two_sum, g_fts)] #[kani::stub(TwoFloat::new_add, g_new_add)] #[kani::stub(TwoFloat::new_sub, g_new_sub)] fn acc4_rsub_gap_p48() { acc4_case(2, 48) }
+    #[kani::solver(kissat)] #[kani::unwind(6)] #[kani::stub(crate::arithmetic::fast_two_sum, g_fts)] #[kani::stub(TwoFloat::new_add, g_new_add)] #[kani::stub(TwoFloat::new_sub, g_new_sub)] fn acc4_rsub_gap_p49() { acc4_case(2, 49) }
+    #[kani::solver(kissat)] #[kani::unwind(6)] #[kani::stub(crate::arithmetic::fast_two_sum, g_fts)] #[kani::stub(TwoFloat::new_add, g_new_add)] #[kani::stub(TwoFloat::new_sub, g_new_sub)] fn acc4_rsub_gap_p50() { acc4_case(2, 50) }
+    #[kani::solver(kissat)] #[kani::unwind(6)] #[kani::stub(crate::arithmetic::fast_two_sum, g_fts)] #[kani::stub(TwoFloat::new_add, g_new_add)] #[kani::stub(TwoFloat::new_sub, g_new_sub)] fn acc4_rsub_gap_p51() { acc4_case(2, 51) }
+    #[kani::solver(kissat)] #[kani::unwind(6)] #[kani::stub(crate::arithmetic::fast_two_sum, g_fts)] #[kani::stub(TwoFloat::new_add, g_new_add)] #[kani::stub(TwoFloat::new_sub, g_new_sub)] fn acc4_rsub_gap_p52() { acc4_case(2, 52) }
+    #[kani::solver(kissat)] #[kani::unwind(6)] #[kani::stub(crate::arithmetic::fast_two_sum, g_fts)] #[kani::stub(TwoFloat::new_add, g_new_add)] #[kani::stub(TwoFloat::new_sub, g_new_sub)] fn acc4_rsub_gap_p53() { acc4_case(2, 53) }
+    #[kani::solver(kissat)] #[kani::unwind(6)] #[kani::stub(crate::arithmetic::fast_two_sum, g_fts)] #[kani::stub(TwoFloat::new_add, g_new_add)] #[kani::stub(TwoFloat::new_sub, g_new_sub)] fn acc4_rsub_gap_p54() { acc4_case(2, 54) }
+    #[kani::solver(kissat)] #[kani::unwind(6)] #[kani::stub(crate::arithmetic::fast_two_sum, g_fts)] #[kani::stub(TwoFloat::new_add, g_new_add)] #[kani::stub(TwoFloat::new_sub, g_new_sub)] fn acc4_rsub_gap_p55() { acc4_case(2, 55) }
+    #[kani::solver(kissat)] #[kani::unwind(6)] #[kani::stub(crate::arithmetic::fast_two_sum, g_fts)] #[kani::stub(TwoFloat::new_add, g_new_add)] #[kani::stub(TwoFloat::new_sub, g_new_sub)] fn acc4_rsub_gap_p56() { acc4_case(2, 56) }
+    #[kani::solver(kissat)] #[kani::unwind(6)] #[kani::stub(crate::arithmetic::fast_two_sum, g_fts)] #[kani::stub(TwoFloat::new_add, g_new_add)] #[kani::stub(TwoFloat::new_sub, g_new_sub)] fn acc4_rsub_gap_p57() { acc4_case(2, 57) }
+    #[kani::solver(kissat)] #[kani::unwind(6)] #[kani::stub(crate::arithmetic::fast_two_sum, g_fts)] #[kani::stub(TwoFloat::new_add, g_new_add)] #[kani::stub(TwoFloat::new_sub, g_new_sub)] fn acc4_rsub_gap_p58() { acc4_case(2, 58) }
+    #[kani::solver(kissat)] #[kani::unwind(6)] #[kani::stub(crate::arithmetic::fast_two_sum, g_fts)] #[kani::stub(TwoFloat::new_add, g_new_add)] #[kani::stub(TwoFloat::new_sub, g_new_sub)] fn acc4_rsub_gap_p59() { acc4_case(2, 59) }
+    #[kani::solver(kissat)] #[kani::unwind(6)] #[kani::stub(crate::arithmetic::fast_two_sum, g_fts)] #[kani::stub(TwoFloat::new_add, g_new_add)] #[kani::stub(TwoFloat::new_sub, g_new_sub)] fn acc4_rsub_gap_p60() { acc4_case(2, 60) }
+    #[kani::solver(kissat)] #[kani::unwind(6)] #[kani::stub(crate::arithmetic::fast_two_sum, g_fts)] #[kani::stub(TwoFloat::new_add, g_new_add)] #[kani::stub(TwoFloat::new_sub, g_new_sub)] fn acc4_rsub_far_p() { acc4_case(2, 1000) }
+    #[kani::solver(kissat)] #[kani::unwind(6)] #[kani::stub(crate::arithmetic::fast_two_sum, g_fts)] #[kani::stub(TwoFloat::new_add, g_new_add)] #[kani::stub(TwoFloat::new_sub, g_new_sub)] fn acc4_rsub_far_m() { acc4_case(2, -1000) }
 
     #[kani::solver(kissat)] #[kani::stub(crate::arithmetic::fast_two_sum, s_fts)] #[kani::stub(TwoFloat::new_add, s_new_add)] #[kani::stub(TwoFloat::new_sub, s_new_sub)]
     fn zero_sum_add_tf_tf() { zero_sum_case(0) }
